@@ -1,395 +1,635 @@
-(* C05: specification (explicit sums of analytic hills deposited on schedule) and proofs that
-   the model of colvarbias_meta (MetaModel.v, instance Rops) refines it. *)
+(* C05: the model of colvarbias_meta (MetaModel.v, instance Rops) refines the specification of MetaSpec.v:
+   for every well-formed configuration and every history of admissible steps and state saves. *)
 From Coq Require Import ZArith List Bool Reals Lra Lia Psatz.
 From Flocq Require Import Core.Raux.
-From CV Require Import Base.Num Base.RNum C15.GridModel C05.MetaModel.
+From CV Require Import Base.Num Base.RNum C15.GridModel C05.MetaModel C05.MetaSpec C05.MetaGeom.
 Import ListNotations.
 Local Open Scope R_scope.
 
-Notation hillR := (@hill R).
-Notation cfgR := (@cfg R).
-Notation varR := (@var_cfg R).
-Notation stateR := (@state R).
-Notation inR := (@step_in R).
+(* ================================================================== premises *)
 
-(* ================================================================== specification *)
+(* well-formed configuration: positive sigmas and widths; sigma = width*hillWidth/2 when hillWidth is given;
+   with grids: upper = lower + nx*width, nx > 0, scalar variables, no expansion of a grid on a periodic variable *)
+Definition cfg_ok (c : cfgR) : Prop :=
+  Forall var_ok (c_vars c) /\ sigmas_ok c /\
+  (c_use_grids c = true -> All2 bound_ok (c_vars c) (c_geom0 c) /\ Forall gvar_ok (c_vars c)).
 
-(* difference x - c, by the nearest image for a periodic variable *)
-Definition mdiff (v : varR) (x c : R) : R :=
-  if v_periodic v then (x - c) - IZR (Zfloor ((x - c) / v_period v + 1 / 2)) * v_period v else x - c.
+(* admissible values (only with grids): one value per variable, not beyond a boundary declared hard, and within
+   the grid along a periodic variable whose grid covers part of the period *)
+(* well-formed grid boundaries (only with grids) *)
+Definition geom_ok (c : cfgR) (g : list boundR) : Prop := c_use_grids c = true -> All2 bound_ok (c_vars c) g.
 
-(* exponent of a hill centred at c, seen from x:  sum_i (x_i - c_i)^2 / sigma_i^2 *)
-Fixpoint Qexp (vs : list varR) (x c : list R) : R :=
-  match vs, x, c with
-  | v :: vs', xi :: x', ci :: c' => (mdiff v xi ci * mdiff v xi ci) / (v_sigma v * v_sigma v) + Qexp vs' x' c'
-  | _, _, _ => 0
+Definition adm (c : cfgR) (g0 : list boundR) (x : list valueR) : Prop :=
+  c_use_grids c = true -> All3 (fun v b xv => adm_var v b (scR xv)) (c_vars c) g0 x.
+
+(* restart with rebinGrids and new boundaries g' (only with grids): the new grids are well formed and
+   - either the state was written with keepHills (the grids are recomputed from the hills) and every hill deposited
+     so far is at least min_buffer bins inside the expandable edges of the new grids (as expandBoundaries would have
+     kept them; vacuous when no variable has expandBoundaries),
+   - or keepHills is off (the old grids are mapped onto the new ones) and the new grids are the current ones
+     extended by whole bins along expandBoundaries variables beyond non-hard boundaries *)
+Definition rebin_ok (c : cfgR) (g' : list boundR) (s : sstate) : Prop :=
+  c_use_grids c = true ->
+  All2 bound_ok (c_vars c) g' /\
+  ((c_keep c = true /\ forall h, In h (s_all s) -> All3 (clear_var c) (c_vars c) g' (h_c h)) \/
+   (c_keep c = false /\ All3 (fun v b b' => gstep v b b') (c_vars c) (s_geom s) g')).
+
+(* the base geometry (boundaries of the configuration) after an event *)
+Definition next_base (c : cfgR) (g0 : list boundR) (e : eventR) : list boundR :=
+  match e with ERestart (Some g') => if c_use_grids c then g' else g0 | _ => g0 end.
+
+(* admissible history, from the specification state s with base geometry g0 *)
+Fixpoint hist_ok (c : cfgR) (g0 : list boundR) (s : sstate) (hist : list eventR) : Prop :=
+  match hist with
+  | [] => True
+  | e :: r =>
+      match e with
+      | EStep i => adm c g0 (i_x i)
+      | ESave => True
+      | ERestart None => True
+      | ERestart (Some g') => rebin_ok c g' s
+      | EReload => True
+      end /\ hist_ok c (next_base c g0 e) (spec_event c s e) r
   end.
 
-(* the kernel as implemented: a Gaussian, set to zero when the exponent exceeds 23 *)
-Definition gauss (q : R) : R := if Rlt_dec 23 q then 0 else exp (- (1 / 2) * q).
+(* the base geometry at the end of a history *)
+Definition final_base (c : cfgR) (hist : list eventR) : list boundR := fold_left (next_base c) hist (c_geom0 c).
+Definition history_ok (c : cfgR) (hist : list eventR) : Prop := hist_ok c (c_geom0 c) (mkS [] [] (c_geom0 c)) hist.
 
-(* energy of hill h at x *)
-Definition K (vs : list varR) (h : hillR) (x : list R) : R := h_W h * gauss (Qexp vs x (h_c h)).
+Lemma scR_nth (l : valueR) : scR l = nth 0 l 0.
+Proof. destruct l; reflexivity. Qed.
 
-(* (x_i - c_i) / sigma_i^2 for every variable *)
-Fixpoint gcomps (vs : list varR) (x c : list R) : list R :=
-  match vs, x, c with
-  | v :: vs', xi :: x', ci :: c' => mdiff v xi ci / (v_sigma v * v_sigma v) :: gcomps vs' x' c'
-  | _, _, _ => []
-  end.
+Lemma vzero_nth (v : varR) j : nth j (vzero Rops v) 0 = 0.
+Proof. unfold vzero. destruct (v_kind v); destruct j as [|[|[|[|[|j]]]]]; reflexivity. Qed.
 
-(* force of hill h on variable k at x: minus the partial derivative of K along x_k *)
-Definition Fk (vs : list varR) (h : hillR) (x : list R) (k : nat) : R :=
-  h_W h * gauss (Qexp vs x (h_c h)) * nth k (gcomps vs x (h_c h)) 0.
+Lemma fzero_nth (vs : list varR) k j : nth j (fzero Rops vs k) 0 = 0.
+Proof. unfold fzero. destruct (nth_error vs k); [apply vzero_nth|destruct j; reflexivity]. Qed.
 
-Fixpoint Rsum (l : list R) : R := match l with [] => 0 | a :: r => a + Rsum r end.
-
-Definition Esum (vs : list varR) (hs : list hillR) (x : list R) : R := Rsum (map (fun h => K vs h x) hs).
-Definition Fsum (vs : list varR) (hs : list hillR) (x : list R) (k : nat) : R :=
-  Rsum (map (fun h => Fk vs h x k) hs).
-
-(* the hills deposited so far: those already tabulated on the grids and those not yet *)
-Record sstate := mkS { s_tab : list hillR; s_pend : list hillR }.
-Definition s_all (s : sstate) : list hillR := s_tab s ++ s_pend s.
-
-Section Spec.
-  Variable c : cfgR.
-  Let vs := c_vars c.
-  Let g := c_geom0 c.
-
-  (* a hill is due at a step that is a multiple of newHillFrequency and at which data may be
-     accumulated (not the first step of a run nor a repeated step, unless stepZeroData) *)
-  Definition eligible (i : inR) : bool :=
-    (i_it i mod c_freq c =? 0)%Z && (((0 <? i_rel i)%Z && negb (i_cont i)) || c_step_zero c) && (0 <? c_freq c)%Z.
-
-  Definition in_grid (x : list R) : bool :=
-    c_use_grids c && index_ok (gsizes g) (cbins Rops vs g x).
-  Definition bin_centre (x : list R) : list R := centre Rops vs g (cbins Rops vs g x).
-
-  (* the bias prescribed by the property *)
-  Definition spec_energy (s : sstate) (x : list R) : R :=
-    if in_grid x then Esum vs (s_tab s) (bin_centre x) + Esum vs (s_pend s) x
-    else Esum vs (s_all s) x.
-  Definition spec_force (s : sstate) (x : list R) (k : nat) : R :=
-    if in_grid x then Fsum vs (s_tab s) (bin_centre x) k + Fsum vs (s_pend s) x k
-    else Fsum vs (s_all s) x k.
-
-  (* height of a new hill: hillWeight, times exp(-V/(k dT)) for well-tempered runs *)
-  Definition spec_height (s : sstate) (x : list R) : R :=
-    if c_wt c then c_weight c * exp (- spec_energy s x / (c_bias_temp c * c_kb c)) else c_weight c.
-
-  Definition spec_step (s : sstate) (i : inR) : sstate :=
-    let s1 := if eligible i
-              then mkS (s_tab s) (s_pend s ++ [mkHill (i_it i) (spec_height s (i_x i)) (i_x i)])
-              else s in
-    if c_use_grids c && (i_it i mod c_gfreq c =? 0)%Z then mkS (s_tab s1 ++ s_pend s1) [] else s1.
-
-  Definition spec_run (hist : list inR) : sstate := fold_left spec_step hist (mkS [] []).
-End Spec.
-
-(* ================================================================== kernel lemmas *)
-
-Lemma Rsum_app a b : Rsum (a ++ b) = Rsum a + Rsum b.
-Proof. induction a as [|x a IH]; cbn [app Rsum]; lra. Qed.
-
-Lemma Esum_app vs a b x : Esum vs (a ++ b) x = Esum vs a x + Esum vs b x.
-Proof. unfold Esum. rewrite map_app, Rsum_app. reflexivity. Qed.
-Lemma Fsum_app vs a b x k : Fsum vs (a ++ b) x k = Fsum vs a x k + Fsum vs b x k.
-Proof. unfold Fsum. rewrite map_app, Rsum_app. reflexivity. Qed.
-Lemma Esum_nil vs x : Esum vs [] x = 0. Proof. reflexivity. Qed.
-Lemma Fsum_nil vs x k : Fsum vs [] x k = 0. Proof. reflexivity. Qed.
-
-Lemma vdiff_R v x c : vdiff Rops v x c = mdiff v x c.
-Proof. unfold vdiff, mdiff, nhalf; cbn. reflexivity. Qed.
-
-Lemma sqdev_R vs : forall x c a, sqdev Rops vs x c a = a + Qexp vs x c.
+Lemma fzero_scalar (vs : list varR) k : Forall gvar_ok vs -> (k < length vs)%nat -> fzero Rops vs k = [0].
 Proof.
-  induction vs as [|v vs IH]; intros x c a.
-  - cbn [sqdev Qexp]. lra.
-  - destruct x as [|xi x]; [cbn [sqdev Qexp]; lra|].
-    destruct c as [|ci c]; [cbn [sqdev Qexp]; lra|].
-    cbn [sqdev Qexp]. rewrite IH, vdiff_R. unfold nsq; cbn. lra.
+  intros Hg Hk. unfold fzero. destruct (nth_error vs k) as [v|] eqn:E.
+  - apply nth_error_In in E. rewrite Forall_forall in Hg. destruct (Hg v E) as [Hkind _].
+    unfold vzero. rewrite Hkind. reflexivity.
+  - apply nth_error_None in E. lia.
 Qed.
 
-Lemma kval_R vs x c : kval Rops vs x c = gauss (Qexp vs x c).
+Lemma Fk_scalar_high (vs : list varR) h x k j : Forall gvar_ok vs -> (0 < j)%nat -> Fk vs h x k j = 0.
 Proof.
-  unfold kval, gauss. rewrite sqdev_R. unfold nhalf; cbn.
-  replace (0 + Qexp vs x c) with (Qexp vs x c) by lra.
-  unfold Rltb. destruct (Rlt_dec 23 (Qexp vs x c)); reflexivity.
+  intros Hg Hj. unfold Fk. destruct (nth_error vs k) as [v|] eqn:E; [|reflexivity].
+  destruct (nth_error x k); [|reflexivity]. destruct (nth_error (h_c h) k); [|reflexivity].
+  apply nth_error_In in E. rewrite Forall_forall in Hg. destruct (Hg v E) as [Hkind _].
+  unfold Dgrad. rewrite Hkind. destruct j as [|j]; [lia|]. cbn [nth]. destruct j; unfold Rdiv; ring.
 Qed.
 
-Lemma henergy_R vs x h : henergy Rops vs x h = K vs h x.
-Proof. unfold henergy, hweight, K. rewrite kval_R. cbn [nmul n1 Rops]. ring. Qed.
-
-Lemma hills_energy_R vs x hs : forall e0, hills_energy Rops vs x hs e0 = e0 + Esum vs hs x.
-Proof.
-  unfold hills_energy, Esum. induction hs as [|h hs IH]; intros e0; cbn [fold_left map Rsum].
-  - lra.
-  - rewrite IH, henergy_R. cbn. lra.
-Qed.
-
-Lemma fcomps_nth vs : forall x c wk k,
-  nth k (fcomps Rops vs x c wk) 0 = wk * nth k (gcomps vs x c) 0.
-Proof.
-  induction vs as [|v vs IH]; intros x c wk k.
-  - cbn [fcomps gcomps]. destruct k; cbn [nth]; lra.
-  - destruct x as [|xi x]; [cbn [fcomps gcomps]; destruct k; cbn [nth]; lra|].
-    destruct c as [|ci c]; [cbn [fcomps gcomps]; destruct k; cbn [nth]; lra|].
-    cbn [fcomps gcomps]. destruct k as [|k]; cbn [nth].
-    + rewrite vdiff_R. unfold nhalf. cbn [nmul ndiv n1 nofZ Rops].
-      set (S := v_sigma v * v_sigma v). set (d := mdiff v xi ci). unfold Rdiv.
-      replace (wk * (1 * / 2 * / S) * (2 * d)) with (wk * d * / S * (/ 2 * 2)) by ring.
-      replace (/ 2 * 2) with 1 by lra. ring.
-    + apply IH.
-Qed.
-
-Lemma hforce_R vs x k f h : hforce Rops vs x k f h = f + Fk vs h x k.
-Proof.
-  unfold hforce, Fk. rewrite kval_R. cbn [neqb Rops n0 nadd nmul].
-  unfold Reqb'. destruct (Req_EM_T (gauss (Qexp vs x (h_c h))) 0) as [E|E].
-  - rewrite E. lra.
-  - change (nth k (fcomps Rops vs x (h_c h) (hweight Rops h * gauss (Qexp vs x (h_c h)))) (n0 Rops))
-      with (nth k (fcomps Rops vs x (h_c h) (hweight Rops h * gauss (Qexp vs x (h_c h)))) 0).
-    rewrite fcomps_nth. unfold hweight; cbn. ring.
-Qed.
-
-Lemma hills_force_R vs x k hs : forall f0, hills_force Rops vs x k hs f0 = f0 + Fsum vs hs x k.
-Proof.
-  unfold hills_force, Fsum. induction hs as [|h hs IH]; intros f0; cbn [fold_left map Rsum].
-  - lra.
-  - rewrite IH, hforce_R. lra.
-Qed.
+Lemma Fsum_scalar_high (vs : list varR) hs x k j : Forall gvar_ok vs -> (0 < j)%nat -> Fsum vs hs x k j = 0.
+Proof. intros Hg Hj. apply Fsum_zero. intros h _. apply Fk_scalar_high; assumption. Qed.
 
 (* ================================================================== refinement *)
 Section Refine.
   Variable c : cfgR.
+  Hypothesis Hok : cfg_ok c.
   Local Notation vs := (c_vars c).
-  Local Notation g := (c_geom0 c).
+  (* base geometry: the boundaries of the (current) configuration *)
+  Variable g0 : list boundR.
+  Hypothesis Hg0 : geom_ok c g0.
+  Local Notation GS := (All3 (fun v b b' => gstep v b b') vs).
+  Local Notation ADM := (All3 (fun v b xv => adm_var v b (scR xv)) vs).
 
-  (* side conditions *)
-  Definition no_expand : Prop := existsb (@v_expand R) (c_vars c) = false.
-  Definition wt_cfg_ok : Prop := c_wt c = false \/ c_use_grids c = false \/ (c_gfreq c | c_freq c)%Z.
-  Definition wt_dep_inside (i : inR) : Prop :=
-    c_wt c = true -> c_use_grids c = true -> eligible c i = true -> in_grid c (i_x i) = true.
+  Lemma Hvars : Forall var_ok vs.
+  Proof. exact (proj1 Hok). Qed.
+  Lemma Hsig : sigmas_ok c.
+  Proof. exact (proj1 (proj2 Hok)). Qed.
 
-  Definition near (h : hillR) : bool := near_edge Rops c g (h_c h).
+  (* a hill that is zero everywhere off the grid g *)
+  Definition Far (g : list boundR) (h : hillR) : Prop :=
+    forall x, ADM g x -> index_ok (gsizes g) (gbins Rops vs g x) = false -> 23 < Qexp vs x (h_c h).
+  (* a hill at least min_buffer bins inside the expandable edges of g *)
+  Definition Clear (g : list boundR) (h : hillR) : Prop := All3 (clear_var c) vs g (h_c h).
 
   Record Inv (m : stateR) (s : sstate) : Prop := mkInv {
     inv_new : st_new m = s_pend s;
-    inv_old : st_old m = if c_keep c then s_tab s else [];
-    inv_e : forall ix, st_e m ix = Esum vs (s_tab s) (centre Rops vs g ix);
-    inv_g : forall ix k, st_g m ix k = - Fsum vs (s_tab s) (centre Rops vs g ix) k;
-    inv_geom : st_geom m = g;
-    inv_off : st_off m = if c_use_grids c then filter near (s_all s) else [];
-    inv_ub : st_ub m = false;
-    inv_nogrid : c_use_grids c = false -> s_tab s = []
+    inv_old : c_keep c = true -> st_old m = s_tab s;
+    inv_sub : Dropped (fun _ => True) (s_tab s) (st_old m);
+    inv_geom : st_geom m = s_geom s;
+    inv_grel : c_use_grids c = true -> GS g0 (s_geom s);
+    inv_e : forall ix, index_ok (gsizes (s_geom s)) ix = true ->
+              st_e m ix = Esum vs (s_tab s) (centre Rops vs (s_geom s) ix);
+    inv_g : forall ix k, index_ok (gsizes (s_geom s)) ix = true -> (k < length vs)%nat ->
+              st_g m ix k = - Fsum vs (s_tab s) (centre Rops vs (s_geom s) ix) k 0;
+    inv_off_old : c_use_grids c = true -> Dropped (Far (s_geom s)) (s_tab s) (st_off_old m);
+    inv_off_new : c_use_grids c = true -> Dropped (Far (s_geom s)) (s_pend s) (st_off_new m);
+    inv_nogrid : c_use_grids c = false -> s_tab s = [] /\ st_off_old m = [] /\ st_off_new m = [];
+    inv_clear : c_use_grids c = true -> forall h, In h (s_all s) -> Clear (s_geom s) h
   }.
 
-  Definition PendEmpty (s : sstate) : Prop := c_wt c = true -> c_use_grids c = true -> s_pend s = [].
-
-  Definition spec_dep (s : sstate) (i : inR) : sstate :=
-    if eligible c i then mkS (s_tab s) (s_pend s ++ [mkHill (i_it i) (spec_height c s (i_x i)) (i_x i)]) else s.
-  Definition spec_proj (s : sstate) (i : inR) : sstate :=
-    if c_use_grids c && (i_it i mod c_gfreq c =? 0)%Z then mkS (s_tab s ++ s_pend s) [] else s.
-  Lemma spec_step_eq s i : spec_step c s i = spec_proj (spec_dep s i) i.
-  Proof. reflexivity. Qed.
-
-  Lemma init_inv : Inv (init_state Rops c) (mkS [] []).
+  Lemma init_inv : g0 = c_geom0 c -> Inv (init_state Rops c) (mkS [] [] (c_geom0 c)).
   Proof.
-    constructor; cbn [init_state st_new st_old st_e st_g st_geom st_off st_ub s_tab s_pend s_all app filter].
+    intros Eg0.
+    constructor; cbn [init_state st_new st_old st_e st_g st_geom st_off_old st_off_new s_tab s_pend s_geom s_all app].
     - reflexivity.
-    - destruct (c_keep c); reflexivity.
-    - intros ix. cbn. lra.
-    - intros ix k. cbn. lra.
+    - intros _. reflexivity.
+    - apply D_nil.
     - reflexivity.
-    - destruct (c_use_grids c); reflexivity.
-    - reflexivity.
-    - reflexivity.
+    - intros G. rewrite <- Eg0. apply All3_refl_gstep.
+      symmetry. apply (All2_length _ _ _ (Hg0 G)).
+    - intros ix _. cbn. lra.
+    - intros ix k _ _. cbn. lra.
+    - intros _. apply D_nil.
+    - intros _. apply D_nil.
+    - intros _. auto.
+    - intros _ h [].
   Qed.
 
-  Lemma ugp_id m i : no_expand -> update_grid_params Rops c m i = m.
-  Proof. intros H. unfold update_grid_params. rewrite H, andb_false_r. reflexivity. Qed.
+  (* facts about the current geometry *)
+  Lemma geom_facts s : c_use_grids c = true -> GS g0 (s_geom s) ->
+    All2 bound_ok vs (s_geom s) /\ Forall gvar_ok vs /\ length (s_geom s) = length vs.
+  Proof.
+    intros G Hg. pose proof Hok as (_ & _ & H). destruct (H G) as [_ Hgv].
+    split; [apply (All2_bound_gstep vs _ _ (Hg0 G) Hg)|]. split; [exact Hgv|].
+    destruct (All3_length _ _ _ _ Hg) as [_ Hl]. symmetry. exact Hl.
+  Qed.
 
+  Lemma adm_current s x : c_use_grids c = true -> GS g0 (s_geom s) -> adm c g0 x -> ADM (s_geom s) x.
+  Proof.
+    intros G Hg Ha. destruct (geom_facts s G Hg) as (_ & Hgv & _).
+    apply (proj1 (All3_adm_gstep vs _ _ x Hgv Hg)). apply Ha. exact G.
+  Qed.
+
+  (* ---- what the bias returns ---- *)
+  Lemma inside_eq m s x : st_geom m = s_geom s -> inside Rops c m x = in_grid c (s_geom s) x.
+  Proof. intros H. unfold inside, in_grid. rewrite H. reflexivity. Qed.
+
+  Lemma far_K g h x : Far g h -> ADM g x -> index_ok (gsizes g) (gbins Rops vs g x) = false -> K vs h x = 0.
+  Proof. intros Hf Ha Ho. apply K_far. apply Hf; assumption. Qed.
+  Lemma far_Fk g h x k j : Far g h -> ADM g x -> index_ok (gsizes g) (gbins Rops vs g x) = false -> Fk vs h x k j = 0.
+  Proof. intros Hf Ha Ho. apply Fk_far. apply Hf; assumption. Qed.
+
+  Lemma energy_spec m s x : Inv m s -> adm c g0 x -> calc_energy Rops c m x = spec_energy c s x.
+  Proof.
+    intros HI Ha. destruct HI as [Hnew Hold Hsub Hgeom Hgrel He Hg Hoo Hon Hng Hcl].
+    unfold calc_energy, spec_energy. rewrite (inside_eq m s x Hgeom), hills_energy_R, Hnew.
+    destruct (in_grid c (s_geom s) x) eqn:Hin.
+    - unfold in_grid in Hin. apply andb_prop in Hin. destruct Hin as [G Hin].
+      rewrite Hgeom, (He _ Hin). unfold bin_centre. cbn [nadd n0 Rops]. lra.
+    - rewrite hills_energy_R. unfold s_all. rewrite Esum_app. cbn [n0 Rops].
+      destruct (c_use_grids c) eqn:G.
+      + unfold in_grid in Hin. rewrite G in Hin. cbn [andb] in Hin.
+        pose proof (adm_current s x G (Hgrel eq_refl) Ha) as Hadm.
+        rewrite (Dropped_Esum (Far (s_geom s)) vs x (s_tab s) (st_off_old m)); [lra| |apply Hoo; reflexivity].
+        intros h Hf. apply (far_K (s_geom s)); assumption.
+      + destruct (Hng eq_refl) as (-> & -> & _). rewrite !Esum_nil. lra.
+  Qed.
+
+  Lemma force_spec m s x k j : Inv m s -> adm c g0 x -> (k < length vs)%nat ->
+    nth j (calc_force Rops c m x k) 0 = spec_force c s x k j.
+  Proof.
+    intros HI Ha Hk. destruct HI as [Hnew Hold Hsub Hgeom Hgrel He Hg Hoo Hon Hng Hcl].
+    unfold calc_force, spec_force. rewrite (inside_eq m s x Hgeom), Hnew.
+    destruct (in_grid c (s_geom s) x) eqn:Hin.
+    - unfold in_grid in Hin. apply andb_prop in Hin. destruct Hin as [G Hin].
+      destruct (geom_facts s G (Hgrel G)) as (_ & Hgv & _).
+      rewrite hills_force_R by (rewrite fzero_scalar by assumption; reflexivity).
+      rewrite Hgeom, (Hg _ _ Hin Hk). unfold bin_centre. cbn [nadd nmul nneg n0 n1 Rops].
+      destruct j as [|j]; cbn [nth].
+      + lra.
+      + rewrite (Fsum_scalar_high vs (s_tab s)) by (assumption || lia). destruct j; lra.
+    - rewrite hills_force_R by (apply hills_force_length).
+      rewrite hills_force_R by reflexivity. rewrite fzero_nth. unfold s_all. rewrite Fsum_app.
+      destruct (c_use_grids c) eqn:G.
+      + unfold in_grid in Hin. rewrite G in Hin. cbn [andb] in Hin.
+        pose proof (adm_current s x G (Hgrel eq_refl) Ha) as Hadm.
+        rewrite (Dropped_Fsum (Far (s_geom s)) vs x k j (s_tab s) (st_off_old m)); [lra| |apply Hoo; reflexivity].
+        intros h Hf. apply (far_Fk (s_geom s)); assumption.
+      + destruct (Hng eq_refl) as (-> & -> & _). rewrite !Fsum_nil. lra.
+  Qed.
+
+  (* ---- update_grid_params ---- *)
+  Lemma Far_step g g' h : Forall gvar_ok vs -> All2 bound_ok vs g -> GS g g' -> Far g h -> Far g' h.
+  Proof.
+    intros Hgv Hb Hs Hf x Ha Ho. apply Hf.
+    - apply (proj2 (All3_adm_gstep vs g g' x Hgv Hs)). exact Ha.
+    - destruct (index_ok (gsizes g) (gbins Rops vs g x)) eqn:E; [|reflexivity].
+      rewrite (in_grid_step vs g g' x Hvars Hgv Hb Hs E) in Ho. discriminate.
+  Qed.
+
+  Lemma same_sstate s : mkS (s_tab s) (s_pend s) (s_geom s) = s.
+  Proof. destruct s; reflexivity. Qed.
+
+  Lemma mb_covers : forall v, In v vs -> 6 * v_sigma v < IZR (min_buffer Rops c) * v_width v.
+  Proof. intros v Hin. apply min_buffer_covers; [exact Hsig|exact Hvars|exact Hin]. Qed.
+
+  Lemma expand_inv m s x : Inv m s -> adm c g0 x -> Inv (update_grid_params Rops c m x) (spec_expand c s x).
+  Proof.
+    intros HI Ha. pose proof HI as HI0. destruct HI as [Hnew Hold Hsub Hgeom Hgrel He Hg Hoo Hon Hng Hcl].
+    unfold update_grid_params, spec_expand, next_geom. rewrite Hgeom.
+    destruct (c_use_grids c && existsb (@v_expand R) vs) eqn:E; [|rewrite same_sstate; exact HI0].
+    destruct (geom_changed (s_geom s) (expand_geom Rops c vs (s_geom s) x)) eqn:Ec; [|rewrite same_sstate; exact HI0].
+    apply andb_prop in E. destruct E as [G _].
+    destruct (geom_facts s G (Hgrel G)) as (Hb & Hgv & Hlen).
+    assert (Hlx : length x = length vs).
+    { specialize (Ha G). destruct (All3_length _ _ _ _ Ha) as [_ Hl]. symmetry. exact Hl. }
+    destruct (expand_geom_spec c vs (s_geom s) x Hvars Hlen Hlx) as [Hs _].
+    set (g' := expand_geom Rops c vs (s_geom s) x) in *.
+    constructor; cbn [st_new st_old st_e st_g st_geom st_off_old st_off_new s_tab s_pend s_geom s_all].
+    - exact Hnew.
+    - exact Hold.
+    - exact Hsub.
+    - reflexivity.
+    - intros _. apply (All3_gstep_trans vs _ _ _ (Hgrel G) Hs).
+    - intros ix Hix. destruct (remap_lemma c vs (s_geom s) g' ix Hvars Hgv Hb Hs mb_covers Hix) as [R1 R2].
+      destruct (index_ok (gsizes (s_geom s)) (remap_ix Rops vs g' (s_geom s) ix)) eqn:Eo.
+      + rewrite (He _ Eo), (R1 eq_refl). reflexivity.
+      + symmetry. apply Esum_zero. intros h Hin. apply K_far. apply (R2 eq_refl).
+        apply (Hcl G). unfold s_all. apply in_or_app. left. exact Hin.
+    - intros ix k Hix Hk. destruct (remap_lemma c vs (s_geom s) g' ix Hvars Hgv Hb Hs mb_covers Hix) as [R1 R2].
+      destruct (index_ok (gsizes (s_geom s)) (remap_ix Rops vs g' (s_geom s) ix)) eqn:Eo.
+      + rewrite (Hg _ _ Eo Hk), (R1 eq_refl). reflexivity.
+      + rewrite Fsum_zero; [cbn; lra|]. intros h Hin. apply Fk_far. apply (R2 eq_refl).
+        apply (Hcl G). unfold s_all. apply in_or_app. left. exact Hin.
+    - intros _. apply (Dropped_mono (Far (s_geom s))); [|apply Hoo; exact G].
+      intros h. apply (Far_step _ _ h Hgv Hb Hs).
+    - intros _. apply (Dropped_mono (Far (s_geom s))); [|apply Hon; exact G].
+      intros h. apply (Far_step _ _ h Hgv Hb Hs).
+    - intros G'. congruence.
+    - intros _ h Hin. apply (All3_clear_gstep c vs (s_geom s) g' (h_c h) Hvars Hs). apply (Hcl G h Hin).
+  Qed.
+
+  (* ---- update_bias ---- *)
   Lemma eligible_deposit i : deposit_now c i = eligible c i.
   Proof. reflexivity. Qed.
 
-  Lemma pend_empty_step s i : wt_cfg_ok -> PendEmpty s -> PendEmpty (spec_step c s i).
+  Lemma not_near_far g x : c_use_grids c = true -> All2 bound_ok vs g -> Forall gvar_ok vs ->
+    length g = length vs -> length x = length vs ->
+    near_edge Rops c g x = false -> forall w it, Far g (mkHill it w x).
   Proof.
-    intros Hcfg HP W G. specialize (HP W G).
-    destruct Hcfg as [H|[H|Hdiv]]; [congruence|congruence|].
-    unfold spec_step. rewrite G. cbn [andb].
-    destruct (i_it i mod c_gfreq c =? 0)%Z eqn:E; [reflexivity|].
-    destruct (eligible c i) eqn:El; [|exact HP].
-    exfalso. unfold eligible in El.
-    apply andb_prop in El. destruct El as [El Hpos]. apply andb_prop in El. destruct El as [Hm _].
-    apply Z.ltb_lt in Hpos. apply Z.eqb_eq in Hm. apply Z.eqb_neq in E. apply E.
-    destruct (Z.eq_dec (c_gfreq c) 0) as [Z0|NZ].
-    - destruct Hdiv as [q Hq]. rewrite Z0 in Hq. lia.
-    - apply Z.mod_divide; [exact NZ|]. apply Z.divide_trans with (m := c_freq c); [exact Hdiv|].
-      apply Z.mod_divide; [lia|exact Hm].
+    intros G Hb Hgv Hlg Hlx Hn w it y Hay Hout. cbn [h_c].
+    unfold near_edge in Hn. cbn [nltb nofZ Rops] in Hn. apply Rltb_false in Hn.
+    pose proof (bin_dist_far (off_margin Rops c) vs g x _ Hlg Hlx Hn) as Hf.
+    destruct vs as [|v0 l0] eqn:Evs.
+    - destruct g; [|discriminate]. destruct y; [|contradiction]. cbn in Hout. discriminate.
+    - rewrite <- Evs in *.
+      apply (far_outside_gen (off_margin Rops c) vs g y x Hvars Hgv Hb Hay Hf); [| |exact Hout].
+      + apply (margin_pos c v0 Hsig Hvars). rewrite Evs. left. reflexivity.
+      + intros v Hin. apply margin_covers; [exact Hsig|exact Hvars|exact Hin].
   Qed.
 
-  Lemma wt_weight m s i : Inv m s -> PendEmpty s -> wt_dep_inside i -> eligible c i = true -> c_wt c = true ->
-    wt_energy_here Rops c m (i_x i) = (spec_energy c s (i_x i), false).
+  Lemma eb_scale_R i : eb_scale Rops c i = eb_factor c i.
   Proof.
-    intros HI HP Hin El W. destruct HI as [Hnew Hold He Hg Hgeom Hoff Hub Hng].
-    unfold wt_energy_here, spec_energy, in_grid. destruct (c_use_grids c) eqn:G; cbn [andb].
-    - rewrite Hgeom. specialize (Hin W G El). unfold in_grid in Hin. rewrite G in Hin. cbn [andb] in Hin.
-      rewrite Hin. f_equal. rewrite He. unfold bin_centre. rewrite (HP W G), Esum_nil. lra.
-    - f_equal. rewrite hills_energy_R, Hnew. unfold s_all. rewrite (Hng eq_refl). cbn [app n0 Rops]. lra.
+    unfold eb_scale, eb_factor. destruct (c_eb c); [|reflexivity]. cbn [nmul ndiv nadd nsub n1 nofZ Rops].
+    destruct (i_it i <? c_eb_equil c)%Z; cbv zeta; rewrite ?Rmult_1_l; reflexivity.
   Qed.
 
-  Lemma filter_snoc {A} (p : A -> bool) l a : filter p (l ++ [a]) = filter p l ++ (if p a then [a] else []).
-  Proof. rewrite filter_app. cbn [filter]. destruct (p a); reflexivity. Qed.
-
-  Lemma add_hill_inv m s i w : Inv m s -> w = spec_height c s (i_x i) ->
-    Inv (mkState (st_old m) (st_new m ++ [mkHill (i_it i) w (i_x i)])
-                 (if c_use_grids c && near_edge Rops c (st_geom m) (i_x i)
-                  then st_off m ++ [mkHill (i_it i) w (i_x i)] else st_off m)
-                 (st_e m) (st_g m) (st_geom m) (st_ub m || false))
-        (mkS (s_tab s) (s_pend s ++ [mkHill (i_it i) (spec_height c s (i_x i)) (i_x i)])).
+  (* the weight of the hill added by update_bias *)
+  Lemma deposit_weight m s i : Inv m s -> adm c g0 (i_x i) ->
+    nmul Rops (c_weight c)
+      (if c_wt c
+       then nmul Rops (eb_scale Rops c i)
+              (nexp Rops (ndiv Rops (nmul Rops (nneg Rops (n1 Rops)) (wt_energy_here Rops c m (i_x i)))
+                                    (nmul Rops (c_bias_temp c) (c_kb c))))
+       else eb_scale Rops c i)
+    = spec_height c s i.
   Proof.
-    intros HI ->. destruct HI as [Hnew Hold He Hg Hgeom Hoff Hub Hng].
-    constructor; cbn [st_new st_old st_e st_g st_geom st_off st_ub s_tab s_pend]; auto.
+    intros HI Ha. unfold spec_height, wt_energy_here. rewrite eb_scale_R. destruct (c_wt c).
+    - rewrite (energy_spec m s (i_x i) HI Ha). cbn [nmul n1 nexp ndiv nneg Rops].
+      f_equal. f_equal. f_equal. unfold Rdiv. ring.
+    - cbn [nmul Rops]. ring.
+  Qed.
+
+  Lemma deposit_inv m s i : Inv m s -> adm c g0 (i_x i) ->
+    (c_use_grids c = true -> All3 (fun v b' xv => buffer_ok c v b' (scR xv)) vs (s_geom s) (i_x i)) ->
+    Inv (update_bias Rops c m i) (spec_dep c s i).
+  Proof.
+    intros HI Ha Hbuf. pose proof HI as HI0. destruct HI as [Hnew Hold Hsub Hgeom Hgrel He Hg Hoo Hon Hng Hcl].
+    unfold update_bias, spec_dep. rewrite eligible_deposit.
+    destruct (eligible c i) eqn:El; [|exact HI0].
+    rewrite (deposit_weight m s i HI0 Ha). set (h := mkHill (i_it i) (spec_height c s i) (i_x i)).
+    constructor; cbn [st_new st_old st_e st_g st_geom st_off_old st_off_new s_tab s_pend s_geom s_all].
     - rewrite Hnew. reflexivity.
-    - rewrite Hgeom, Hoff. unfold s_all. cbn [s_tab s_pend].
-      destruct (c_use_grids c); cbn [andb]; [|reflexivity].
-      rewrite app_assoc, filter_snoc.
-      assert (Hn : near (mkHill (i_it i) (spec_height c s (i_x i)) (i_x i)) = near_edge Rops c g (i_x i)) by reflexivity.
-      rewrite Hn.
-      destruct (near_edge Rops c g (i_x i)); [reflexivity|rewrite app_nil_r; reflexivity].
-    - rewrite Hub. reflexivity.
+    - exact Hold.
+    - exact Hsub.
+    - exact Hgeom.
+    - exact Hgrel.
+    - exact He.
+    - exact Hg.
+    - exact Hoo.
+    - intros G. rewrite G, Hgeom. cbn [andb].
+      destruct (geom_facts s G (Hgrel G)) as (Hb & Hgv & Hlen).
+      assert (Hlx : length (i_x i) = length vs).
+      { specialize (Ha G). destruct (All3_length _ _ _ _ Ha) as [_ Hl]. symmetry. exact Hl. }
+      destruct (near_edge Rops c (s_geom s) (i_x i)) eqn:En.
+      + apply Dropped_app; [apply Hon; exact G|]. apply D_keep. apply D_nil.
+      + rewrite <- (app_nil_r (st_off_new m)). apply Dropped_app; [apply Hon; exact G|].
+        apply D_drop; [|apply D_nil]. apply (not_near_far _ _ G Hb Hgv Hlen Hlx En).
+    - intros G. rewrite G. cbn [andb]. apply (Hng G).
+    - intros G h' Hin. apply in_app_or in Hin. destruct Hin as [Hin|Hin].
+      + apply (Hcl G). unfold s_all. apply in_or_app. left. exact Hin.
+      + apply in_app_or in Hin. destruct Hin as [Hin|[<-|[]]].
+        * apply (Hcl G). unfold s_all. apply in_or_app. right. exact Hin.
+        * destruct (geom_facts s G (Hgrel G)) as (Hb & _ & _).
+          unfold Clear, h. cbn [h_c]. apply (All3_buffer_clear c vs _ _ Hvars Hb (Hbuf G)).
   Qed.
 
-  Lemma update_bias_inv m s i : Inv m s -> PendEmpty s -> wt_dep_inside i ->
-    Inv (update_bias Rops c m i) (spec_dep s i).
-  Proof.
-    intros HI HP Hin. unfold update_bias, spec_dep. rewrite eligible_deposit.
-    destruct (eligible c i) eqn:El; [|exact HI].
-    destruct (c_wt c) eqn:W.
-    - rewrite (wt_weight m s i HI HP Hin El W). apply add_hill_inv; [exact HI|].
-      unfold spec_height, wt_scale. rewrite W. cbn [nmul n1 nexp ndiv nneg Rops].
-      f_equal. rewrite Rmult_1_l. f_equal. unfold Rdiv. ring.
-    - apply add_hill_inv; [exact HI|]. unfold spec_height. rewrite W. cbn [nmul n1 Rops]. ring.
-  Qed.
-
+  (* ---- project_hills ---- *)
   Lemma project_inv m s : Inv m s -> c_use_grids c = true ->
-    Inv (project Rops c m) (mkS (s_tab s ++ s_pend s) []).
+    Inv (project Rops c m) (mkS (s_tab s ++ s_pend s) [] (s_geom s)).
   Proof.
-    intros HI G. destruct HI as [Hnew Hold He Hg Hgeom Hoff Hub Hng].
-    unfold project. constructor; cbn [st_new st_old st_e st_g st_geom st_off st_ub s_tab s_pend]; auto.
-    - rewrite Hold, Hnew. destruct (c_keep c); reflexivity.
-    - intros ix. rewrite He, Hgeom, hills_energy_R, Hnew, Esum_app. cbn [nadd n0 Rops]. lra.
-    - intros ix k. rewrite Hg, Hgeom, hills_force_R, Hnew, Fsum_app. cbn [nsub n0 Rops]. lra.
-    - rewrite Hoff. unfold s_all. cbn [s_tab s_pend]. rewrite app_nil_r. reflexivity.
+    intros HI G. destruct HI as [Hnew Hold Hsub Hgeom Hgrel He Hg Hoo Hon Hng Hcl].
+    destruct (geom_facts s G (Hgrel G)) as (Hb & Hgv & Hlen).
+    unfold project. constructor; cbn [st_new st_old st_e st_g st_geom st_off_old st_off_new s_tab s_pend s_geom s_all].
+    - reflexivity.
+    - intros Ek. rewrite Ek, (Hold Ek), Hnew. reflexivity.
+    - rewrite Hnew. destruct (c_keep c) eqn:Ek.
+      + rewrite (Hold eq_refl). apply Dropped_refl.
+      + generalize (s_tab s ++ s_pend s). intros l.
+        induction l as [|h l IH]; [apply D_nil|apply D_drop; [exact I|exact IH]].
+    - exact Hgeom.
+    - exact Hgrel.
+    - intros ix Hix. rewrite (He _ Hix), Hgeom, hills_energy_R, Hnew, Esum_app. cbn [nadd n0 Rops]. lra.
+    - intros ix k Hix Hk. rewrite (Hg _ _ Hix Hk), Hgeom, sc_R, scR_nth.
+      rewrite hills_force_R by (rewrite fzero_scalar by assumption; reflexivity).
+      rewrite Hnew, Fsum_app. cbn [nsub n0 nth Rops]. lra.
+    - intros _. apply Dropped_app; [apply Hoo; exact G|apply Hon; exact G].
+    - intros _. apply D_nil.
     - intros G'. congruence.
+    - intros _ h Hin. unfold s_all in Hin. cbn [s_tab s_pend] in Hin. rewrite app_nil_r in Hin. apply (Hcl G h Hin).
   Qed.
 
-  Lemma step_inv m s i : no_expand -> Inv m s -> PendEmpty s -> wt_dep_inside i ->
-    Inv (step_state Rops c m i) (spec_step c s i).
+  Lemma tabulate_inv m s : Inv m s -> Inv (save_state Rops c m) (spec_tabulate c s).
   Proof.
-    intros Hne HI HP Hin. unfold step_state. rewrite (ugp_id m i Hne), spec_step_eq.
-    pose proof (update_bias_inv m s i HI HP Hin) as H2.
-    unfold spec_proj, update_grid_data. destruct (c_use_grids c) eqn:G; cbn [andb]; [|exact H2].
-    destruct (i_it i mod c_gfreq c =? 0)%Z; [|exact H2].
+    intros HI. unfold save_state, spec_tabulate. destruct (c_use_grids c) eqn:G; [|exact HI].
     apply project_inv; assumption.
   Qed.
 
-  Lemma run_inv hist : no_expand -> wt_cfg_ok -> Forall wt_dep_inside hist ->
-    Inv (final_state Rops c hist) (spec_run c hist) /\ PendEmpty (spec_run c hist).
+  (* ---- update ---- *)
+  Lemma step_inv m s i : Inv m s -> adm c g0 (i_x i) -> Inv (step_state Rops c m i) (spec_step c s i).
   Proof.
-    intros Hne Hcfg. unfold final_state, spec_run.
-    assert (Hgen : forall m s, Inv m s -> PendEmpty s -> Forall wt_dep_inside hist ->
-              Inv (fold_left (step_state Rops c) hist m) (fold_left (spec_step c) hist s) /\
-              PendEmpty (fold_left (spec_step c) hist s)).
-    { induction hist as [|i hist IH]; intros m s HI HP HF; cbn [fold_left].
-      - split; assumption.
-      - inversion HF as [|i' l' Hi Hl]; subst. apply IH; auto.
-        + apply step_inv; auto.
-        + apply pend_empty_step; auto. }
-    intros HF. apply Hgen; auto.
-    - apply init_inv.
-    - intros _ _. reflexivity.
+    intros HI Ha. unfold step_state, spec_step.
+    pose proof (expand_inv m s (i_x i) HI Ha) as H1.
+    assert (Hbuf : c_use_grids c = true ->
+              All3 (fun v b' xv => buffer_ok c v b' (scR xv)) vs (s_geom (spec_expand c s (i_x i))) (i_x i)).
+    { intros G. destruct HI as [_ _ _ _ Hgrel _ _ _ _ _ _].
+      destruct (geom_facts s G (Hgrel G)) as (_ & _ & Hlen).
+      assert (Hlx : length (i_x i) = length vs).
+      { specialize (Ha G). destruct (All3_length _ _ _ _ Ha) as [_ Hl]. symmetry. exact Hl. }
+      cbn [spec_expand s_geom]. apply (next_geom_spec c (s_geom s) (i_x i) G Hvars Hlen Hlx). }
+    pose proof (deposit_inv _ _ i H1 Ha Hbuf) as H2.
+    unfold spec_proj, update_grid_data. destruct (c_use_grids c) eqn:G.
+    - destruct (i_it i mod c_gfreq c =? 0)%Z; [|exact H2].
+      unfold spec_tabulate. rewrite G. apply project_inv; assumption.
+    - destruct (i_it i mod c_gfreq c =? 0)%Z; [|exact H2]. unfold spec_tabulate. rewrite G. exact H2.
   Qed.
 
-  (* ---- what the bias returns, in terms of the specification ---- *)
+  (* ---- read_state_data in a fresh instance (same geometry) ---- *)
+  Lemma clear_length g h : Clear g h -> length (h_c h) = length vs.
+  Proof. intros H. destruct (All3_length _ _ _ _ H) as [_ Hl]. symmetry. exact Hl. Qed.
 
-  Lemma inside_eq m x : st_geom m = g -> inside Rops c m x = in_grid c x.
-  Proof. intros H. unfold inside, in_grid. rewrite H. reflexivity. Qed.
-
-  Lemma energy_inside m s x : Inv m s -> (in_grid c x = true \/ c_use_grids c = false) ->
-    calc_energy Rops c m x = spec_energy c s x.
+  Lemma near_filter_dropped s hs : c_use_grids c = true -> GS g0 (s_geom s) ->
+    (forall h, In h hs -> Clear (s_geom s) h) ->
+    Dropped (Far (s_geom s)) hs (filter (near_hill Rops c (s_geom s)) hs).
   Proof.
-    intros HI Hc. destruct HI as [Hnew Hold He Hg Hgeom Hoff Hub Hng].
-    unfold calc_energy, spec_energy. rewrite (inside_eq m x Hgeom), hills_energy_R, Hnew.
-    destruct Hc as [Hin|G].
-    - rewrite Hin, Hgeom, He. unfold bin_centre. cbn [nadd n0 Rops]. lra.
-    - assert (Hin : in_grid c x = false) by (unfold in_grid; rewrite G; reflexivity).
-      rewrite Hin, hills_energy_R, Hoff, G, Esum_nil. unfold s_all. rewrite (Hng G). cbn [app n0 Rops]. lra.
+    intros G Hgr Hcl. destruct (geom_facts s G Hgr) as (Hb & Hgv & Hlen).
+    apply Dropped_filter. intros h Hin Hn. destruct h as [it w x]. unfold near_hill in Hn. cbn [h_c] in Hn.
+    apply (not_near_far _ _ G Hb Hgv Hlen); [|exact Hn].
+    apply (clear_length (s_geom s) (mkHill it w x)). apply Hcl. exact Hin.
   Qed.
 
-  Lemma force_inside m s x k : Inv m s -> (in_grid c x = true \/ c_use_grids c = false) ->
-    calc_force Rops c m x k = spec_force c s x k.
+  Lemma read_inv m s : Inv m s -> (c_use_grids c = true -> s_pend s = []) -> Inv (read_state Rops c m) s.
   Proof.
-    intros HI Hc. destruct HI as [Hnew Hold He Hg Hgeom Hoff Hub Hng].
-    unfold calc_force, spec_force. rewrite (inside_eq m x Hgeom), hills_force_R, Hnew.
-    destruct Hc as [Hin|G].
-    - rewrite Hin, Hgeom, Hg. unfold bin_centre. cbn [nadd nmul nneg n0 n1 Rops]. lra.
-    - assert (Hin : in_grid c x = false) by (unfold in_grid; rewrite G; reflexivity).
-      rewrite Hin, hills_force_R, Hoff, G, Fsum_nil. unfold s_all. rewrite (Hng G). cbn [app n0 Rops]. lra.
+    intros HI Hp. destruct HI as [Hnew Hold Hsub Hgeom Hgrel He Hg Hoo Hon Hng Hcl].
+    unfold read_state, state_hills. destruct (c_use_grids c) eqn:G; cbn [negb orb].
+    - specialize (Hp eq_refl). specialize (Hgrel eq_refl). specialize (Hoo eq_refl). specialize (Hon eq_refl).
+      specialize (Hcl eq_refl). rewrite Hp in *.
+      assert (Hoff_new : st_off_new m = []) by (apply (Dropped_nil _ _ Hon)).
+      assert (Hgr' : c_use_grids c = true -> GS g0 (s_geom s)) by (intros _; exact Hgrel).
+      constructor; cbn [st_new st_old st_e st_g st_geom st_off_old st_off_new].
+      + rewrite Hp. reflexivity.
+      + intros Ek. rewrite Ek, (Hold Ek), Hnew, app_nil_r. reflexivity.
+      + destruct (c_keep c) eqn:Ek.
+        * rewrite (Hold eq_refl), Hnew, app_nil_r. apply Dropped_refl.
+        * rewrite Hoff_new, app_nil_r. apply (Dropped_mono (Far (s_geom s))); [intros; exact I|exact Hoo].
+      + exact Hgeom.
+      + exact Hgr'.
+      + exact He.
+      + exact Hg.
+      + intros _. rewrite Hgeom. destruct (c_keep c) eqn:Ek.
+        * rewrite (Hold eq_refl), Hnew, app_nil_r. apply (near_filter_dropped s _ G Hgrel).
+          intros h Hin. apply Hcl. unfold s_all. apply in_or_app. left. exact Hin.
+        * rewrite Hoff_new, app_nil_r. apply (Dropped_trans _ _ _ Hoo).
+          apply (near_filter_dropped s _ G Hgrel).
+          intros h Hin. apply Hcl. unfold s_all. apply in_or_app. left.
+          apply (Dropped_In _ _ _ Hoo). exact Hin.
+      + intros _. rewrite Hp. apply D_nil.
+      + intros G'. rewrite G in G'. discriminate G'.
+      + intros _. exact Hcl.
+    - destruct (Hng eq_refl) as (Ht & Ho1 & Ho2).
+      assert (Hold' : st_old m = []).
+      { rewrite Ht in Hsub. apply (Dropped_nil _ _ Hsub). }
+      constructor; cbn [st_new st_old st_e st_g st_geom st_off_old st_off_new].
+      + rewrite Hold', Hnew. reflexivity.
+      + intros _. rewrite Ht. reflexivity.
+      + rewrite Ht. apply D_nil.
+      + exact Hgeom.
+      + intros G'. rewrite G in G'. discriminate G'.
+      + exact He.
+      + exact Hg.
+      + intros G'. rewrite G in G'. discriminate G'.
+      + intros G'. rewrite G in G'. discriminate G'.
+      + intros _. auto.
+      + intros G'. rewrite G in G'. discriminate G'.
   Qed.
 
-  (* outside the grid the implementation sums hills_off_grid and the unprojected hills *)
-  Lemma energy_outside m s x : Inv m s -> c_use_grids c = true -> in_grid c x = false ->
-    calc_energy Rops c m x = Esum vs (filter near (s_all s)) x + Esum vs (s_pend s) x.
+  Lemma tabulate_pend s : c_use_grids c = true -> s_pend (spec_tabulate c s) = [].
+  Proof. intros G. unfold spec_tabulate. rewrite G. reflexivity. Qed.
+
+  Lemma restart_inv m s : Inv m s -> Inv (restart_state Rops c m None) (spec_restart c s None).
   Proof.
-    intros HI G Hout. destruct HI as [Hnew Hold He Hg Hgeom Hoff Hub Hng].
-    unfold calc_energy. rewrite (inside_eq m x Hgeom), Hout, !hills_energy_R, Hnew, Hoff, G.
-    cbn [n0 Rops]. lra.
+    intros HI. unfold restart_state, spec_restart. apply read_inv; [apply tabulate_inv; exact HI|apply tabulate_pend].
   Qed.
 
-  Lemma force_outside m s x k : Inv m s -> c_use_grids c = true -> in_grid c x = false ->
-    calc_force Rops c m x k = Fsum vs (filter near (s_all s)) x k + Fsum vs (s_pend s) x k.
+  Lemma reload_inv m s : Inv m s -> Inv (reload_state Rops c m) (spec_tabulate c s).
   Proof.
-    intros HI G Hout. destruct HI as [Hnew Hold He Hg Hgeom Hoff Hub Hng].
-    unfold calc_force. rewrite (inside_eq m x Hgeom), Hout, !hills_force_R, Hnew, Hoff, G.
-    cbn [n0 Rops]. lra.
+    intros HI. pose proof (restart_inv m s HI) as H. unfold restart_state, spec_restart in H.
+    destruct H as [Hnew Hold Hsub Hgeom Hgrel He Hg Hoo Hon Hng Hcl].
+    unfold reload_state. constructor; cbn [st_new st_old st_e st_g st_geom st_off_old st_off_new]; assumption.
   Qed.
 
-  Lemma Esum_filter (p : hillR -> bool) hs x :
-    (forall h, In h hs -> p h = false -> K vs h x = 0) -> Esum vs (filter p hs) x = Esum vs hs x.
+  (* without keepHills the hills listed after read_state_data are hills near the edges: the others vanish off the grid *)
+  Lemma read_old_far m s : Inv m s -> c_use_grids c = true -> c_keep c = false -> s_pend s = [] ->
+    Dropped (Far (s_geom s)) (s_tab s) (st_old (read_state Rops c m)).
   Proof.
-    unfold Esum. induction hs as [|h hs IH]; intros H; cbn [filter map Rsum]; [reflexivity|].
-    destruct (p h) eqn:E; cbn [map Rsum].
-    - rewrite IH; [reflexivity|]. intros h' Hin. apply H. right. exact Hin.
-    - rewrite IH; [|intros h' Hin; apply H; right; exact Hin].
-      rewrite (H h); [lra|left; reflexivity|exact E].
+    intros HI G Ek Hp. destruct HI as [Hnew Hold Hsub Hgeom Hgrel He Hg Hoo Hon Hng Hcl].
+    unfold read_state, state_hills. rewrite G, Ek. cbn [negb orb st_old].
+    specialize (Hon G). rewrite Hp in Hon. rewrite (Dropped_nil _ _ Hon), app_nil_r. apply Hoo. exact G.
   Qed.
 
-  Lemma Esum_zero hs x : (forall h, In h hs -> K vs h x = 0) -> Esum vs hs x = 0.
+  Lemma event_inv m s e : Inv m s ->
+    match e with EStep i => adm c g0 (i_x i) | ERestart (Some _) => False | _ => True end ->
+    Inv (apply_event Rops c m e) (spec_event c s e).
   Proof.
-    unfold Esum. induction hs as [|h hs IH]; intros H; cbn [map Rsum]; [reflexivity|].
-    rewrite IH; [|intros h' Hin; apply H; right; exact Hin]. rewrite (H h); [lra|left; reflexivity].
+    intros HI Ha. destruct e as [i| |[g'|]|]; cbn [apply_event spec_event].
+    - apply step_inv; assumption.
+    - apply tabulate_inv; assumption.
+    - contradiction.
+    - apply restart_inv; assumption.
+    - apply reload_inv; assumption.
   Qed.
 End Refine.
 
+(* ================================================================== restart with rebinGrids (new base geometry) *)
+
+Lemma s_all_save c s : s_all (spec_tabulate c s) = s_all s.
+Proof. unfold spec_tabulate, s_all. destruct (c_use_grids c); cbn [s_tab s_pend]; rewrite ?app_nil_r; reflexivity. Qed.
+
+Lemma rebin_inv c g0 g' m s : cfg_ok c -> geom_ok c g0 ->
+  Inv c g0 m s -> rebin_ok c g' s ->
+  Inv c (next_base c g0 (ERestart (Some g'))) (restart_state Rops c m (Some g')) (spec_restart c s (Some g')).
+Proof.
+  intros Hok Hg0 HI Hr. pose proof (restart_inv c Hok g0 Hg0 m s HI) as H1.
+  pose proof (tabulate_inv c Hok g0 Hg0 m s HI) as Hsave.
+  unfold restart_state, spec_restart in *. cbn [next_base].
+  set (m1 := read_state Rops c (save_state Rops c m)) in *. set (s1 := spec_tabulate c s) in *.
+  unfold rebin_state. destruct (c_use_grids c) eqn:G; [|exact H1].
+  destruct (Hr G) as (Hb' & Hcase).
+  assert (Hp1 : s_pend s1 = []) by (unfold s1; apply tabulate_pend; exact G).
+  assert (Hg1 : s_geom s1 = s_geom s) by (unfold s1, spec_tabulate; rewrite G; reflexivity).
+  pose proof (read_old_far c g0 (save_state Rops c m) s1 Hsave G) as Hfar1. fold m1 in Hfar1.
+  destruct H1 as [Hnew Hold Hsub Hgeom Hgrel He Hg Hoo Hon Hng Hcl].
+  pose proof Hok as (Hvars & Hsig & Hgv0). destruct (Hgv0 G) as [_ Hgv].
+  assert (Hlen' : length g' = length (c_vars c)) by (symmetry; apply (All2_length _ _ _ Hb')).
+  destruct Hcase as [(Ek & Hcl')|(Ek & Hs)].
+  - (* from the kept hills *)
+    rewrite Ek. cbn [andb].
+    assert (Hclear1 : forall h, In h (s_tab s1) -> All3 (clear_var c) (c_vars c) g' (h_c h)).
+    { intros h Hin. apply Hcl'. rewrite <- (s_all_save c s). fold s1. unfold s_all. apply in_or_app. left. exact Hin. }
+    constructor; cbn [st_new st_old st_e st_g st_geom st_off_old st_off_new s_tab s_pend s_geom].
+    + symmetry. exact Hp1.
+    + intros _. apply (Hold Ek).
+    + rewrite (Hold Ek). apply Dropped_refl.
+    + reflexivity.
+    + intros _. apply All3_refl_gstep. exact Hlen'.
+    + intros ix Hix. rewrite (Hold Ek). destruct (s_tab s1) as [|h0 t0] eqn:Et.
+      * rewrite Esum_nil.
+        destruct (index_ok (gsizes (st_geom m1)) (remap_ix Rops (c_vars c) g' (st_geom m1) ix)) eqn:Eo; [|reflexivity].
+        rewrite Hgeom in Eo. rewrite Hgeom, (He _ Eo), ?Et, Esum_nil. reflexivity.
+      * rewrite hills_energy_R. cbn [nadd n0 Rops]. lra.
+    + intros ix k Hix Hk. rewrite (Hold Ek). destruct (s_tab s1) as [|h0 t0] eqn:Et.
+      * rewrite Fsum_nil.
+        destruct (index_ok (gsizes (st_geom m1)) (remap_ix Rops (c_vars c) g' (st_geom m1) ix)) eqn:Eo; [|cbn; lra].
+        rewrite Hgeom in Eo. rewrite Hgeom, (Hg _ _ Eo Hk), ?Et, Fsum_nil. lra.
+      * rewrite sc_R, scR_nth, hills_force_R by (rewrite fzero_scalar by assumption; reflexivity).
+        cbn [nsub n0 nth Rops]. lra.
+    + intros _. rewrite (Hold Ek). destruct (s_tab s1) as [|h0 t0] eqn:Et.
+      * rewrite (Dropped_nil _ _ (Hoo G)). apply D_nil.
+      * apply Dropped_filter. intros h Hin Hn. destruct h as [it w x].
+        unfold near_hill in Hn. cbn [h_c] in Hn.
+        apply (not_near_far c Hok g' x G Hb' Hgv Hlen'); [|exact Hn].
+        destruct (All3_length _ _ _ _ (Hclear1 _ Hin)) as [_ Hl]. symmetry. exact Hl.
+    + intros _. rewrite Hp1. apply D_nil.
+    + intros G'. rewrite G in G'. discriminate G'.
+    + intros _ h Hin. unfold s_all in Hin. cbn [s_tab s_pend] in Hin. rewrite Hp1, app_nil_r in Hin. apply Hclear1. exact Hin.
+  - (* from the grids of the state: map_grid onto an extension of the current grids *)
+    rewrite Ek. cbn [andb]. rewrite <- Hg1 in Hs.
+    destruct (geom_facts c Hok g0 Hg0 s1 G (Hgrel G)) as (Hb & _ & Hlen).
+    specialize (Hfar1 Ek Hp1).
+    assert (Hfar' : forall h, Far c (s_geom s1) h -> Far c g' h) by (intros h; apply (Far_step c Hok _ _ h Hgv Hb Hs)).
+    assert (Hcl1 : forall h, In h (s_tab s1) -> Clear c (s_geom s1) h).
+    { intros h Hin. apply (Hcl G). unfold s_all. apply in_or_app. left. exact Hin. }
+    constructor; cbn [st_new st_old st_e st_g st_geom st_off_old st_off_new s_tab s_pend s_geom].
+    + symmetry. exact Hp1.
+    + intros Ek'. rewrite Ek in Ek'. discriminate Ek'.
+    + exact Hsub.
+    + reflexivity.
+    + intros _. apply All3_refl_gstep. exact Hlen'.
+    + intros ix Hix. rewrite Hgeom.
+      destruct (remap_lemma c (c_vars c) (s_geom s1) g' ix Hvars Hgv Hb Hs (mb_covers c Hok) Hix) as [R1 R2].
+      destruct (index_ok (gsizes (s_geom s1)) (remap_ix Rops (c_vars c) g' (s_geom s1) ix)) eqn:Eo.
+      * rewrite (He _ Eo), (R1 eq_refl). reflexivity.
+      * symmetry. apply Esum_zero. intros h Hin. apply K_far. apply (R2 eq_refl). apply Hcl1. exact Hin.
+    + intros ix k Hix Hk. rewrite Hgeom.
+      destruct (remap_lemma c (c_vars c) (s_geom s1) g' ix Hvars Hgv Hb Hs (mb_covers c Hok) Hix) as [R1 R2].
+      destruct (index_ok (gsizes (s_geom s1)) (remap_ix Rops (c_vars c) g' (s_geom s1) ix)) eqn:Eo.
+      * rewrite (Hg _ _ Eo Hk), (R1 eq_refl). reflexivity.
+      * rewrite Fsum_zero; [cbn; lra|]. intros h Hin. apply Fk_far. apply (R2 eq_refl). apply Hcl1. exact Hin.
+    + intros _. destruct (st_old m1) as [|h0 t0] eqn:Eh.
+      * apply (Dropped_mono (Far c (s_geom s1))); [exact Hfar'|apply Hoo; exact G].
+      * apply (Dropped_trans _ _ _ (Dropped_mono _ _ _ _ Hfar' Hfar1)).
+        apply Dropped_filter. intros h Hin Hn. destruct h as [it w x].
+        unfold near_hill in Hn. cbn [h_c] in Hn.
+        apply (not_near_far c Hok g' x G Hb' Hgv Hlen'); [|exact Hn].
+        apply (clear_length c (s_geom s1) (mkHill it w x)). apply Hcl1.
+        apply (Dropped_In _ _ _ Hfar1). exact Hin.
+    + intros _. rewrite Hp1. apply D_nil.
+    + intros G'. rewrite G in G'. discriminate G'.
+    + intros _ h Hin. apply (All3_clear_gstep c (c_vars c) (s_geom s1) g' (h_c h) Hvars Hs). apply (Hcl G h Hin).
+Qed.
+
+Lemma next_base_ok c g0 e s : geom_ok c g0 ->
+  match e with ERestart (Some g') => rebin_ok c g' s | _ => True end ->
+  geom_ok c (next_base c g0 e).
+Proof.
+  intros Hg0 He G. destruct e as [i| |[g'|]|]; cbn [next_base]; try (apply Hg0; exact G).
+  rewrite G. destruct (He G) as (Hb & _). exact Hb.
+Qed.
+
+Lemma run_inv_gen c : cfg_ok c -> forall hist g0 m s,
+  geom_ok c g0 -> Inv c g0 m s -> hist_ok c g0 s hist ->
+  Inv c (fold_left (next_base c) hist g0) (fold_left (apply_event Rops c) hist m) (fold_left (spec_event c) hist s) /\
+  geom_ok c (fold_left (next_base c) hist g0).
+Proof.
+  intros Hok. induction hist as [|e hist IH]; intros g0 m s Hg0 HI HH; cbn [fold_left].
+  - split; assumption.
+  - cbn [hist_ok] in HH. destruct HH as [He Hr]. apply IH.
+    + apply (next_base_ok c g0 e s Hg0). destruct e as [i| |[g'|]|]; try exact I. exact He.
+    + destruct e as [i| |[g'|]|].
+      * cbn [next_base]. apply (event_inv c Hok g0 Hg0 m s (EStep i) HI He).
+      * cbn [next_base]. apply (event_inv c Hok g0 Hg0 m s ESave HI I).
+      * apply (rebin_inv c g0 g' m s Hok Hg0 HI He).
+      * cbn [next_base]. apply (event_inv c Hok g0 Hg0 m s (ERestart None) HI I).
+      * cbn [next_base]. apply (event_inv c Hok g0 Hg0 m s EReload HI I).
+    + exact Hr.
+Qed.
+
+Lemma cfg_geom0_ok c : cfg_ok c -> geom_ok c (c_geom0 c).
+Proof. intros (_ & _ & H) G. destruct (H G) as [Hb _]. exact Hb. Qed.
+
+Lemma run_inv c hist : cfg_ok c -> history_ok c hist ->
+  Inv c (final_base c hist) (final_state Rops c hist) (spec_run c hist) /\
+  geom_ok c (final_base c hist).
+Proof.
+  intros Hok HH. unfold final_base, final_state, spec_run.
+  apply (run_inv_gen c Hok hist (c_geom0 c)); [apply cfg_geom0_ok; exact Hok| |exact HH].
+  apply init_inv; [apply cfg_geom0_ok; exact Hok|reflexivity].
+Qed.
+
+Lemma hist_ok_app c h1 : forall g0 s h2,
+  hist_ok c g0 s (h1 ++ h2) <->
+  hist_ok c g0 s h1 /\ hist_ok c (fold_left (next_base c) h1 g0) (fold_left (spec_event c) h1 s) h2.
+Proof.
+  induction h1 as [|e h1 IH]; intros g0 s h2; cbn [app hist_ok fold_left]; [tauto|].
+  rewrite IH. tauto.
+Qed.
+
 (* ================================================================== statements at the level of histories *)
 
-Lemma final_state_snoc c hist i :
-  final_state Rops c (hist ++ [i]) = step_state Rops c (final_state Rops c hist) i.
+Lemma final_state_snoc c hist e :
+  final_state Rops c (hist ++ [e]) = apply_event Rops c (final_state Rops c hist) e.
 Proof. unfold final_state. rewrite fold_left_app. reflexivity. Qed.
 
-Lemma spec_run_snoc c hist i : spec_run c (hist ++ [i]) = spec_step c (spec_run c hist) i.
+Lemma spec_run_snoc c hist e : spec_run c (hist ++ [e]) = spec_event c (spec_run c hist) e.
 Proof. unfold spec_run. rewrite fold_left_app. reflexivity. Qed.
 
-(* energy and force on variable k returned by update() at the step with input i, after history hist *)
-Definition out_energy (c : cfgR) (hist : list inR) (i : inR) : R :=
+Lemma final_base_snoc c hist e : final_base c (hist ++ [e]) = next_base c (final_base c hist) e.
+Proof. unfold final_base. rewrite fold_left_app. reflexivity. Qed.
+
+(* energy, and force on variable k (a list of components), returned by update() at the step with input i after
+   the history hist *)
+Definition out_energy (c : cfgR) (hist : list eventR) (i : inR) : R :=
   fst (snd (step Rops c (final_state Rops c hist) i)).
-Definition out_force (c : cfgR) (hist : list inR) (i : inR) (k : nat) : R :=
-  nth k (snd (snd (step Rops c (final_state Rops c hist) i))) 0.
+Definition out_force (c : cfgR) (hist : list eventR) (i : inR) (k : nat) : valueR :=
+  nth k (snd (snd (step Rops c (final_state Rops c hist) i))) [].
 
 Lemma out_energy_eq c hist i :
-  out_energy c hist i = calc_energy Rops c (final_state Rops c (hist ++ [i])) (i_x i).
+  out_energy c hist i = calc_energy Rops c (final_state Rops c (hist ++ [EStep i])) (i_x i).
 Proof. unfold out_energy, step. cbn [fst snd]. rewrite final_state_snoc. reflexivity. Qed.
 
 Lemma nth_map_seq {A} (f : nat -> A) n k d : (k < n)%nat -> nth k (map f (seq 0 n)) d = f k.
@@ -399,231 +639,280 @@ Proof.
 Qed.
 
 Lemma out_force_eq c hist i k : (k < length (c_vars c))%nat ->
-  out_force c hist i k = calc_force Rops c (final_state Rops c (hist ++ [i])) (i_x i) k.
+  out_force c hist i k = calc_force Rops c (final_state Rops c (hist ++ [EStep i])) (i_x i) k.
 Proof.
   intros H. unfold out_force, step. cbn [fst snd]. rewrite final_state_snoc.
   unfold calc_forces. apply nth_map_seq. exact H.
 Qed.
 
-Lemma schedule_holds c hist : no_expand c -> wt_cfg_ok c -> Forall (wt_dep_inside c) hist ->
-  st_new (final_state Rops c hist) = s_pend (spec_run c hist) /\
-  st_old (final_state Rops c hist) = (if c_keep c then s_tab (spec_run c hist) else []) /\
-  st_ub (final_state Rops c hist) = false.
+Lemma last_step_adm c hist i : history_ok c (hist ++ [EStep i]) -> adm c (final_base c (hist ++ [EStep i])) (i_x i).
 Proof.
-  intros H1 H2 H3. destruct (run_inv c hist H1 H2 H3) as [HI _].
-  destruct HI as [Hnew Hold He Hg Hgeom Hoff Hub Hng]. auto.
+  unfold history_ok. intros H. apply hist_ok_app in H. destruct H as [_ H]. cbn [hist_ok] in H. destruct H as [H _].
+  rewrite final_base_snoc. cbn [next_base]. exact H.
 Qed.
 
-(* every eligible step adds exactly one hill, centred at the current values, of the prescribed height *)
+Lemma schedule_holds c hist : cfg_ok c -> history_ok c hist ->
+  st_new (final_state Rops c hist) = s_pend (spec_run c hist) /\
+  (c_keep c = true -> st_old (final_state Rops c hist) = s_tab (spec_run c hist)) /\
+  Dropped (fun _ => True) (s_tab (spec_run c hist)) (st_old (final_state Rops c hist)) /\
+  st_geom (final_state Rops c hist) = s_geom (spec_run c hist).
+Proof.
+  intros H1 H2. destruct (run_inv c hist H1 H2) as [[Hnew Hold Hsub Hgeom _ _ _ _ _ _ _] _]. auto.
+Qed.
+
+Lemma energy_holds c hist i : cfg_ok c -> history_ok c (hist ++ [EStep i]) ->
+  out_energy c hist i = spec_energy c (spec_run c (hist ++ [EStep i])) (i_x i).
+Proof.
+  intros H1 H2. rewrite out_energy_eq. destruct (run_inv c _ H1 H2) as [HI Hb].
+  apply (energy_spec c H1 _ Hb _ _ _ HI). apply last_step_adm. exact H2.
+Qed.
+
+Lemma force_holds c hist i k j : cfg_ok c -> history_ok c (hist ++ [EStep i]) ->
+  (k < length (c_vars c))%nat ->
+  nth j (out_force c hist i k) 0 = spec_force c (spec_run c (hist ++ [EStep i])) (i_x i) k j.
+Proof.
+  intros H1 H2 Hk. rewrite out_force_eq by exact Hk. destruct (run_inv c _ H1 H2) as [HI Hb].
+  apply (force_spec c H1 _ Hb _ _ _ _ _ HI); [|exact Hk]. apply last_step_adm. exact H2.
+Qed.
+
+Lemma grid_is_projected_sum c hist : cfg_ok c -> history_ok c hist ->
+  forall ix, index_ok (gsizes (s_geom (spec_run c hist))) ix = true ->
+    st_e (final_state Rops c hist) ix =
+      Esum (c_vars c) (s_tab (spec_run c hist)) (centre Rops (c_vars c) (s_geom (spec_run c hist)) ix) /\
+    forall k, (k < length (c_vars c))%nat -> st_g (final_state Rops c hist) ix k =
+      - Fsum (c_vars c) (s_tab (spec_run c hist)) (centre Rops (c_vars c) (s_geom (spec_run c hist)) ix) k 0.
+Proof.
+  intros H1 H2 ix Hix. destruct (run_inv c hist H1 H2) as [[_ _ _ _ _ He Hg _ _ _ _] _].
+  split; [apply He; exact Hix|intros k Hk; apply Hg; assumption].
+Qed.
+
+(* the grids only grow from the boundaries of the (last) configuration, by whole bins, on the same lattice, and
+   only along expandBoundaries variables and beyond non-hard boundaries *)
+Lemma geometry_grows c hist : cfg_ok c -> history_ok c hist -> c_use_grids c = true ->
+  All3 (fun v b b' => gstep v b b') (c_vars c) (final_base c hist) (s_geom (spec_run c hist)).
+Proof.
+  intros H1 H2 G. destruct (run_inv c hist H1 H2) as [[_ _ _ _ Hgrel _ _ _ _ _ _] _]. apply Hgrel. exact G.
+Qed.
+
+(* ---- the schedule itself ---- *)
 Lemma s_all_step c s i :
   s_all (spec_step c s i) =
-  s_all s ++ (if eligible c i then [mkHill (i_it i) (spec_height c s (i_x i)) (i_x i)] else []).
+  s_all s ++ (if eligible c i
+              then [mkHill (i_it i) (spec_height c (spec_expand c s (i_x i)) i) (i_x i)] else []).
 Proof.
-  unfold spec_step, s_all.
-  destruct (eligible c i); destruct (c_use_grids c && (i_it i mod c_gfreq c =? 0)%Z);
-    cbn [s_tab s_pend]; rewrite ?app_nil_r, ?app_assoc; reflexivity.
+  unfold spec_step, spec_proj, spec_tabulate, spec_dep, s_all.
+  destruct (eligible c i); destruct (i_it i mod c_gfreq c =? 0)%Z; destruct (c_use_grids c);
+    cbn [s_tab s_pend spec_expand]; rewrite ?app_nil_r, ?app_assoc; reflexivity.
 Qed.
 
 Lemma deposited_snoc c hist i :
-  s_all (spec_run c (hist ++ [i])) =
+  s_all (spec_run c (hist ++ [EStep i])) =
   s_all (spec_run c hist) ++
-  (if eligible c i then [mkHill (i_it i) (spec_height c (spec_run c hist) (i_x i)) (i_x i)] else []).
+  (if eligible c i
+   then [mkHill (i_it i) (spec_height c (spec_expand c (spec_run c hist) (i_x i)) i) (i_x i)] else []).
 Proof. rewrite spec_run_snoc. apply s_all_step. Qed.
 
-(* without well-tempering: the deposited hills are one hill of height hillWeight per eligible step *)
-Lemma deposited_plain c hist : c_wt c = false ->
-  s_all (spec_run c hist) = map (fun i => mkHill (i_it i) (c_weight c) (i_x i)) (filter (eligible c) hist).
+Lemma deposited_save c hist : s_all (spec_run c (hist ++ [ESave])) = s_all (spec_run c hist).
+Proof. rewrite spec_run_snoc. apply s_all_save. Qed.
+
+Lemma s_all_restart c s r : s_all (spec_restart c s r) = s_all s.
 Proof.
-  intros W. unfold spec_run.
-  assert (Hgen : forall s, s_all (fold_left (spec_step c) hist s) =
-            s_all s ++ map (fun i => mkHill (i_it i) (c_weight c) (i_x i)) (filter (eligible c) hist)).
-  { induction hist as [|i hist IH]; intros s; cbn [fold_left filter map].
-    - rewrite app_nil_r. reflexivity.
-    - rewrite IH, s_all_step. unfold spec_height. rewrite W.
-      destruct (eligible c i); cbn [map]; rewrite <- app_assoc; reflexivity. }
+  unfold spec_restart. destruct r as [g'|]; [|apply s_all_save].
+  destruct (c_use_grids c); [|apply s_all_save]. rewrite <- (s_all_save c s). reflexivity.
+Qed.
+
+Lemma deposited_restart c hist r : s_all (spec_run c (hist ++ [ERestart r])) = s_all (spec_run c hist).
+Proof. rewrite spec_run_snoc. apply s_all_restart. Qed.
+
+Fixpoint steps_of (hist : list eventR) : list inR :=
+  match hist with
+  | [] => []
+  | EStep i :: r => i :: steps_of r
+  | ESave :: r => steps_of r
+  | ERestart _ :: r => steps_of r
+  | EReload :: r => steps_of r
+  end.
+
+(* without well-tempering: the deposited hills are one hill of height hillWeight per eligible step *)
+Lemma deposited_plain c hist : c_wt c = false -> c_eb c = false ->
+  s_all (spec_run c hist) = map (fun i => mkHill (i_it i) (c_weight c) (i_x i)) (filter (eligible c) (steps_of hist)).
+Proof.
+  intros W B. unfold spec_run.
+  assert (Hgen : forall s, s_all (fold_left (spec_event c) hist s) =
+            s_all s ++ map (fun i => mkHill (i_it i) (c_weight c) (i_x i)) (filter (eligible c) (steps_of hist))).
+  { induction hist as [|e hist IH]; intros s; cbn [fold_left].
+    - cbn. rewrite app_nil_r. reflexivity.
+    - destruct e as [i| |r|]; cbn [spec_event steps_of filter].
+      + rewrite IH, s_all_step. unfold spec_height, eb_factor. rewrite W, B.
+        replace (c_weight c * (1 * 1)) with (c_weight c) by ring.
+        destruct (eligible c i); cbn [map]; rewrite <- app_assoc; reflexivity.
+      + rewrite IH, s_all_save. reflexivity.
+      + rewrite IH, s_all_restart. reflexivity.
+      + rewrite IH, s_all_save. reflexivity. }
   rewrite Hgen. reflexivity.
 Qed.
 
-(* hills are tabulated at the steps that are multiples of gridsUpdateFrequency *)
+(* hills are tabulated at the steps that are multiples of gridsUpdateFrequency, and when the state is written *)
 Lemma tabulated_snoc c hist i : c_use_grids c = true ->
-  s_pend (spec_run c (hist ++ [i])) = (if (i_it i mod c_gfreq c =? 0)%Z then [] else
-     s_pend (spec_run c hist) ++ (if eligible c i then [mkHill (i_it i) (spec_height c (spec_run c hist) (i_x i)) (i_x i)] else [])).
+  s_pend (spec_run c (hist ++ [EStep i])) = (if (i_it i mod c_gfreq c =? 0)%Z then [] else
+     s_pend (spec_run c hist) ++
+     (if eligible c i
+      then [mkHill (i_it i) (spec_height c (spec_expand c (spec_run c hist) (i_x i)) i) (i_x i)] else [])).
 Proof.
-  intros G. rewrite spec_run_snoc. unfold spec_step. rewrite G. cbn [andb].
+  intros G. rewrite spec_run_snoc. cbn [spec_event]. unfold spec_step, spec_proj, spec_tabulate, spec_dep. rewrite G.
   destruct (i_it i mod c_gfreq c =? 0)%Z; [reflexivity|].
-  destruct (eligible c i); cbn [s_pend]; rewrite ?app_nil_r; reflexivity.
+  destruct (eligible c i); cbn [s_pend spec_expand]; rewrite ?app_nil_r; reflexivity.
 Qed.
 
-Lemma grid_is_projected_sum c hist : no_expand c -> wt_cfg_ok c -> Forall (wt_dep_inside c) hist ->
-  forall ix,
-    st_e (final_state Rops c hist) ix =
-      Esum (c_vars c) (s_tab (spec_run c hist)) (centre Rops (c_vars c) (c_geom0 c) ix) /\
-    forall k, st_g (final_state Rops c hist) ix k =
-      - Fsum (c_vars c) (s_tab (spec_run c hist)) (centre Rops (c_vars c) (c_geom0 c) ix) k.
+Lemma tabulated_save c hist : c_use_grids c = true -> s_pend (spec_run c (hist ++ [ESave])) = [].
+Proof. intros G. rewrite spec_run_snoc. cbn [spec_event]. unfold spec_tabulate. rewrite G. reflexivity. Qed.
+
+Lemma tabulated_restart c hist r : c_use_grids c = true -> s_pend (spec_run c (hist ++ [ERestart r])) = [].
 Proof.
-  intros H1 H2 H3 ix. destruct (run_inv c hist H1 H2 H3) as [HI _].
-  destruct HI as [Hnew Hold He Hg Hgeom Hoff Hub Hng]. split; [apply He|intros k; apply Hg].
+  intros G. rewrite spec_run_snoc. cbn [spec_event]. unfold spec_restart, spec_tabulate. rewrite G.
+  destruct r; reflexivity.
 Qed.
 
-Lemma energy_inside_grid c hist i : no_expand c -> wt_cfg_ok c -> Forall (wt_dep_inside c) (hist ++ [i]) ->
-  in_grid c (i_x i) = true \/ c_use_grids c = false ->
-  out_energy c hist i = spec_energy c (spec_run c (hist ++ [i])) (i_x i).
+(* rebinGrids: the restart gives the grids the boundaries of the new configuration *)
+Lemma rebin_geometry c hist g' : c_use_grids c = true ->
+  s_geom (spec_run c (hist ++ [ERestart (Some g')])) = g' /\
+  s_tab (spec_run c (hist ++ [ERestart (Some g')])) = s_all (spec_run c hist).
 Proof.
-  intros H1 H2 H3 Hc. rewrite out_energy_eq. destruct (run_inv c _ H1 H2 H3) as [HI _].
-  apply energy_inside; assumption.
+  intros G. rewrite spec_run_snoc. cbn [spec_event]. unfold spec_restart, spec_tabulate, s_all. rewrite G.
+  split; reflexivity.
 Qed.
 
-Lemma force_inside_grid c hist i k : no_expand c -> wt_cfg_ok c -> Forall (wt_dep_inside c) (hist ++ [i]) ->
-  in_grid c (i_x i) = true \/ c_use_grids c = false -> (k < length (c_vars c))%nat ->
-  out_force c hist i k = spec_force c (spec_run c (hist ++ [i])) (i_x i) k.
+(* keepHills does not occur in the specification *)
+Definition set_keep (c : cfgR) (b : bool) : cfgR :=
+  mkCfg (c_vars c) (c_geom0 c) (c_weight c) (c_hill_width c) (c_freq c) (c_gfreq c) (c_use_grids c) b
+        (c_wt c) (c_bias_temp c) (c_kb c) (c_step_zero c) (c_eb c) (c_eb_equil c) (c_eb_target c).
+
+Lemma expand_geom_keep c b us : forall g x,
+  expand_geom Rops (set_keep c b) us g x = expand_geom Rops c us g x.
 Proof.
-  intros H1 H2 H3 Hc Hk. rewrite out_force_eq by exact Hk. destruct (run_inv c _ H1 H2 H3) as [HI _].
-  apply force_inside; assumption.
+  induction us as [|v us IH]; intros [|bd g] [|xv x]; cbn [expand_geom]; try reflexivity.
+  rewrite IH. reflexivity.
 Qed.
 
-Lemma outside_grid_implemented c hist i : no_expand c -> wt_cfg_ok c -> Forall (wt_dep_inside c) (hist ++ [i]) ->
-  c_use_grids c = true -> in_grid c (i_x i) = false ->
-  out_energy c hist i =
-    Esum (c_vars c) (filter (near c) (s_all (spec_run c (hist ++ [i])))) (i_x i) +
-    Esum (c_vars c) (s_pend (spec_run c (hist ++ [i]))) (i_x i).
+Lemma next_geom_keep c b g x : next_geom (set_keep c b) g x = next_geom c g x.
 Proof.
-  intros H1 H2 H3 G Ho. rewrite out_energy_eq. destruct (run_inv c _ H1 H2 H3) as [HI _].
-  apply energy_outside; assumption.
+  unfold next_geom. change (c_use_grids (set_keep c b)) with (c_use_grids c).
+  change (c_vars (set_keep c b)) with (c_vars c). rewrite expand_geom_keep. reflexivity.
 Qed.
 
-Lemma outside_grid_partial c hist i : no_expand c -> wt_cfg_ok c -> Forall (wt_dep_inside c) (hist ++ [i]) ->
-  c_use_grids c = true -> in_grid c (i_x i) = false ->
-  (forall h, In h (s_all (spec_run c (hist ++ [i]))) -> near c h = false -> K (c_vars c) h (i_x i) = 0) ->
-  (forall h, In h (s_pend (spec_run c (hist ++ [i]))) -> K (c_vars c) h (i_x i) = 0) ->
-  out_energy c hist i = spec_energy c (spec_run c (hist ++ [i])) (i_x i).
+Lemma spec_event_keep c b s e : spec_event (set_keep c b) s e = spec_event c s e.
 Proof.
-  intros H1 H2 H3 G Ho Ha Hb. rewrite (outside_grid_implemented c hist i H1 H2 H3 G Ho).
-  rewrite Esum_filter by exact Ha. rewrite (Esum_zero c _ _ Hb).
-  unfold spec_energy. rewrite Ho. lra.
+  destruct e as [i| |r|]; cbn [spec_event]; [|reflexivity|reflexivity|reflexivity].
+  unfold spec_step, spec_expand. rewrite next_geom_keep. reflexivity.
 Qed.
 
-(* ================================================================== witnesses (findings and non-vacuity) *)
-
-Lemma Zfloor_val x n : IZR n <= x < IZR n + 1 -> Zfloor x = n.
-Proof. intros H. apply Zfloor_spec. exact H. Qed.
-
-Definition w_var : varR := mkVar false 1 1 1 false false false false.
-Definition w_cfg : cfgR := mkCfg [w_var] [mkBound 0 8 8%Z] 1 0 2%Z 2%Z true false false 1 1 false.
-Definition w_i1 : inR := mkIn 2%Z 2%Z false [3/2].
-Definition w_i2 : inR := mkIn 3%Z 3%Z false [-(1/4)].
-
-Lemma w_run : spec_run w_cfg ([w_i1] ++ [w_i2]) = mkS [mkHill 2%Z 1 [3/2]] [].
-Proof. reflexivity. Qed.
-
-Lemma w_hyps : no_expand w_cfg /\ wt_cfg_ok w_cfg /\ Forall (wt_dep_inside w_cfg) ([w_i1] ++ [w_i2]).
+Lemma spec_run_keep c b hist : spec_run (set_keep c b) hist = spec_run c hist.
 Proof.
-  split; [reflexivity|]. split; [left; reflexivity|].
-  repeat constructor; intros W; discriminate W.
+  unfold spec_run. change (c_geom0 (set_keep c b)) with (c_geom0 c). generalize (mkS [] [] (c_geom0 c)).
+  induction hist as [|e hist IH]; intros s; cbn [fold_left]; [reflexivity|].
+  rewrite spec_event_keep. apply IH.
 Qed.
 
-Lemma w_outside : in_grid w_cfg (i_x w_i2) = false.
+Lemma keep_hills_irrelevant c b hist i : cfg_ok c ->
+  history_ok c (hist ++ [EStep i]) -> history_ok (set_keep c b) (hist ++ [EStep i]) ->
+  out_energy (set_keep c b) hist i = out_energy c hist i /\
+  forall k j, (k < length (c_vars c))%nat ->
+    nth j (out_force (set_keep c b) hist i k) 0 = nth j (out_force c hist i k) 0.
 Proof.
-  unfold in_grid, w_cfg, w_i2, w_var. cbn [c_use_grids c_geom0 c_vars i_x cbins gsizes map b_nx b_lower v_width andb].
-  unfold value_to_bin. cbn [nfloor ndiv nsub Rops].
-  rewrite (Zfloor_val _ (-1)%Z) by (simpl; lra). reflexivity.
+  intros H1 H2 H2'.
+  assert (H1' : cfg_ok (set_keep c b)) by exact H1.
+  split.
+  - rewrite (energy_holds _ _ _ H1' H2'), (energy_holds _ _ _ H1 H2), spec_run_keep. reflexivity.
+  - intros k j Hk. rewrite (force_holds _ _ _ k j H1' H2' Hk), (force_holds _ _ _ k j H1 H2 Hk), spec_run_keep.
+    reflexivity.
 Qed.
 
-Lemma w_not_near : near w_cfg (mkHill 2%Z 1 [3/2]) = false.
+(* histories without a rebinning restart: a list of admissible steps, saves and plain restarts *)
+Definition plain_event (c : cfgR) (e : eventR) : Prop :=
+  match e with EStep i => adm c (c_geom0 c) (i_x i) | ERestart (Some _) => False | _ => True end.
+
+Lemma plain_history_ok c hist : Forall (plain_event c) hist -> history_ok c hist.
 Proof.
-  unfold near, near_edge, off_margin, w_cfg, w_var.
-  cbn [c_vars c_geom0 c_hill_width h_c bin_dist v_gperiodic v_periodic v_width v_hard_lo v_hard_up b_lower b_upper negb andb].
-  unfold vdiff, nsq. cbn [v_periodic nsub nmul ndiv nsqrt nadd nneg n1 nofZ nfloor nltb Rops].
-  rewrite (Zfloor_val 0 0%Z) by (simpl; lra).
-  replace ((3 / 2 - 0) * (3 / 2 - 0)) with ((3 / 2) * (3 / 2)) by lra.
-  replace ((3 / 2 - 8) * (3 / 2 - 8)) with ((13 / 2) * (13 / 2)) by lra.
-  rewrite !sqrt_square by lra.
-  assert (H1 : Rltb (3 / 2) 0 = false) by (apply Rltb_false; lra).
-  assert (H2 : Rltb 8 (3 / 2) = false) by (apply Rltb_false; lra).
-  rewrite H1, H2.
-  assert (H3 : Rltb (3 / 2 / 1) (IZR 10000000000000000) = true) by (apply Rltb_true; lra).
-  rewrite H3.
-  assert (H4 : Rltb (13 / 2 / 1) (3 / 2 / 1) = false) by (apply Rltb_false; lra).
-  rewrite H4.
-  apply Rltb_false. simpl. lra.
+  unfold history_ok. generalize (mkS [] [] (c_geom0 c)).
+  induction hist as [|e hist IH]; intros s HF; cbn [hist_ok]; [exact I|].
+  inversion HF as [|e' l' He Hl]; subst.
+  destruct e as [i| |[g'|]|]; cbn [plain_event next_base] in *; try contradiction; (split; [assumption|apply IH; exact Hl]).
 Qed.
 
-Lemma outside_grid_refuted :
-  exists (c : cfgR) (hist : list inR) (i : inR),
-    no_expand c /\ wt_cfg_ok c /\ Forall (wt_dep_inside c) (hist ++ [i]) /\
-    c_use_grids c = true /\ in_grid c (i_x i) = false /\
-    out_energy c hist i <> spec_energy c (spec_run c (hist ++ [i])) (i_x i).
+(* ================================================================== writeHillsTrajectory *)
+
+(* the hills written to the hills trajectory since the instance was created: one record per deposited hill, in
+   order, with the step, height and centre of the deposition *)
+Fixpoint traj_run (c : cfgR) (s : sstate) (tr : list hillR) (hist : list eventR) : list hillR :=
+  match hist with
+  | [] => tr
+  | e :: r =>
+      traj_run c (spec_event c s e)
+        (match e with
+         | EStep i => tr ++ (if eligible c i
+                             then [mkHill (i_it i) (spec_height c (spec_expand c s (i_x i)) i) (i_x i)] else [])
+         | ESave => tr
+         | ERestart _ => []
+         | EReload => tr
+         end) r
+  end.
+Definition spec_traj (c : cfgR) (hist : list eventR) : list hillR := traj_run c (mkS [] [] (c_geom0 c)) [] hist.
+
+Lemma traj_event c g0 m s e : cfg_ok c -> geom_ok c g0 -> Inv c g0 m s ->
+  match e with EStep i => adm c g0 (i_x i) | _ => True end ->
+  st_traj (apply_event Rops c m e) =
+  match e with
+  | EStep i => st_traj m ++ (if eligible c i
+                             then [mkHill (i_it i) (spec_height c (spec_expand c s (i_x i)) i) (i_x i)] else [])
+  | ESave => st_traj m
+  | ERestart _ => []
+  | EReload => st_traj m
+  end.
 Proof.
-  exists w_cfg, [w_i1], w_i2. destruct w_hyps as [H1 [H2 H3]].
-  split; [exact H1|]. split; [exact H2|]. split; [exact H3|]. split; [reflexivity|]. split; [exact w_outside|].
-  rewrite (outside_grid_implemented w_cfg [w_i1] w_i2 H1 H2 H3 eq_refl w_outside).
-  unfold spec_energy. rewrite w_outside, w_run. unfold s_all. cbn [s_tab s_pend app filter].
-  rewrite w_not_near. rewrite !Esum_nil.
-  unfold Esum. cbn [map Rsum]. unfold K, w_cfg, w_i2, w_var. cbn [c_vars h_W h_c i_x Qexp v_sigma].
-  unfold mdiff. cbn [v_periodic]. unfold gauss.
-  destruct (Rlt_dec 23 ((- (1 / 4) - 3 / 2) * (- (1 / 4) - 3 / 2) / (1 * 1) + 0)) as [Hlt|_]; [exfalso; lra|].
-  pose proof (exp_pos (- (1 / 2) * ((- (1 / 4) - 3 / 2) * (- (1 / 4) - 3 / 2) / (1 * 1) + 0))) as Hp.
-  lra.
+  intros Hok Hg0 HI Ha. destruct e as [i| |r|]; cbn [apply_event].
+  - unfold step_state.
+    pose proof (expand_inv c Hok g0 Hg0 m s (i_x i) HI Ha) as H1.
+    set (m1 := update_grid_params Rops c m (i_x i)) in *.
+    assert (Ht1 : st_traj m1 = st_traj m).
+    { unfold m1, update_grid_params. destruct (c_use_grids c && existsb (@v_expand R) (c_vars c)); [|reflexivity].
+      destruct (geom_changed (st_geom m) (expand_geom Rops c (c_vars c) (st_geom m) (i_x i))); reflexivity. }
+    assert (Ht2 : st_traj (update_bias Rops c m1 i) =
+                  st_traj m ++ (if eligible c i
+                                then [mkHill (i_it i) (spec_height c (spec_expand c s (i_x i)) i) (i_x i)] else [])).
+    { unfold update_bias. rewrite (eligible_deposit c i). destruct (eligible c i).
+      - cbn [st_traj]. rewrite (deposit_weight c Hok g0 Hg0 m1 _ i H1 Ha), Ht1. reflexivity.
+      - rewrite app_nil_r. exact Ht1. }
+    destruct (c_use_grids c); [|exact Ht2].
+    unfold update_grid_data. destruct (i_it i mod c_gfreq c =? 0)%Z; [|exact Ht2].
+    unfold project. cbn [st_traj]. exact Ht2.
+  - unfold save_state. destruct (c_use_grids c); reflexivity.
+  - unfold restart_state, read_state, rebin_state. destruct r as [g'|]; destruct (c_use_grids c); reflexivity.
+  - reflexivity.
 Qed.
 
-(* well-tempered, one step outside the grid *)
-Definition u_cfg : cfgR := mkCfg [w_var] [mkBound 0 8 8%Z] 1 0 1%Z 1%Z true false true 1 1 false.
-Definition u_i : inR := mkIn 1%Z 1%Z false [-(1/4)].
-
-Lemma u_read : wt_energy_here Rops u_cfg (init_state Rops u_cfg) (i_x u_i) = (0, true).
+Lemma traj_gen c : cfg_ok c -> forall hist g0 m s tr, geom_ok c g0 -> Inv c g0 m s -> hist_ok c g0 s hist ->
+  st_traj m = tr -> st_traj (fold_left (apply_event Rops c) hist m) = traj_run c s tr hist.
 Proof.
-  unfold wt_energy_here, u_cfg, u_i, w_var, init_state.
-  cbn [c_use_grids c_geom0 c_vars i_x cbins gsizes map b_nx b_lower v_width st_geom].
-  unfold value_to_bin. cbn [nfloor ndiv nsub Rops].
-  rewrite (Zfloor_val _ (-1)%Z) by (simpl; lra). reflexivity.
+  intros Hok. induction hist as [|e hist IH]; intros g0 m s tr Hg0 HI HH Ht; cbn [fold_left traj_run]; [exact Ht|].
+  cbn [hist_ok] in HH. destruct HH as [He Hr].
+  assert (Hnb : geom_ok c (next_base c g0 e)).
+  { apply (next_base_ok c g0 e s Hg0). destruct e as [i| |[g'|]|]; try exact I. exact He. }
+  assert (HI' : Inv c (next_base c g0 e) (apply_event Rops c m e) (spec_event c s e)).
+  { destruct e as [i| |[g'|]|].
+    - cbn [next_base]. apply (event_inv c Hok g0 Hg0 m s (EStep i) HI He).
+    - cbn [next_base]. apply (event_inv c Hok g0 Hg0 m s ESave HI I).
+    - apply (rebin_inv c g0 g' m s Hok Hg0 HI He).
+    - cbn [next_base]. apply (event_inv c Hok g0 Hg0 m s (ERestart None) HI I).
+    - cbn [next_base]. apply (event_inv c Hok g0 Hg0 m s EReload HI I). }
+  apply (IH _ _ _ _ Hnb HI' Hr).
+  rewrite (traj_event c g0 m s e Hok Hg0 HI); [|destruct e as [i| |r|]; try exact I; exact He].
+  destruct e as [i| |r|]; rewrite ?Ht; reflexivity.
 Qed.
 
-Lemma wt_outside_refuted :
-  exists (c : cfgR) (hist : list inR),
-    no_expand c /\ wt_cfg_ok c /\ st_ub (final_state Rops c hist) = true.
+Lemma trajectory_holds c hist : cfg_ok c -> history_ok c hist ->
+  st_traj (final_state Rops c hist) = spec_traj c hist.
 Proof.
-  exists u_cfg, [u_i]. split; [reflexivity|]. split; [right; right; exists 1%Z; reflexivity|].
-  unfold final_state. cbn [fold_left]. unfold step_state. rewrite ugp_id by reflexivity.
-  change (c_use_grids u_cfg) with true. cbv iota.
-  unfold update_grid_data. change (i_it u_i mod c_gfreq u_cfg =? 0)%Z with true. cbv iota.
-  unfold project. cbn [st_ub].
-  unfold update_bias. change (deposit_now u_cfg u_i) with true. cbv iota.
-  change (c_wt u_cfg) with true. cbv iota. rewrite u_read. reflexivity.
-Qed.
-
-(* non-vacuity of the premises used above *)
-Lemma w_inside : in_grid w_cfg (i_x w_i1) = true.
-Proof.
-  unfold in_grid, w_cfg, w_i1, w_var. cbn [c_use_grids c_geom0 c_vars i_x cbins gsizes map b_nx b_lower v_width andb].
-  unfold value_to_bin. cbn [nfloor ndiv nsub Rops].
-  rewrite (Zfloor_val _ 1%Z) by (simpl; lra). reflexivity.
-Qed.
-
-Definition u_in : inR := mkIn 1%Z 1%Z false [3/2].
-Lemma u_inside_dep : c_wt u_cfg = true /\ c_use_grids u_cfg = true /\ eligible u_cfg u_in = true /\
-  wt_dep_inside u_cfg u_in /\ in_grid u_cfg (i_x u_in) = true.
-Proof.
-  assert (H : in_grid u_cfg (i_x u_in) = true).
-  { unfold in_grid, u_cfg, u_in, w_var. cbn [c_use_grids c_geom0 c_vars i_x cbins gsizes map b_nx b_lower v_width andb].
-    unfold value_to_bin. cbn [nfloor ndiv nsub Rops].
-    rewrite (Zfloor_val _ 1%Z) by (simpl; lra). reflexivity. }
-  repeat split; try reflexivity; [intros _ _ _; exact H|exact H].
-Qed.
-
-(* far outside the grid the dropped hill does not reach x: the premises of outside_grid_partial hold *)
-Definition w_i3 : inR := mkIn 3%Z 3%Z false [-20].
-Lemma w_far : in_grid w_cfg (i_x w_i3) = false /\
-  (forall h, In h (s_all (spec_run w_cfg ([w_i1] ++ [w_i3]))) -> near w_cfg h = false -> K (c_vars w_cfg) h (i_x w_i3) = 0) /\
-  (forall h, In h (s_pend (spec_run w_cfg ([w_i1] ++ [w_i3]))) -> K (c_vars w_cfg) h (i_x w_i3) = 0) /\
-  s_all (spec_run w_cfg ([w_i1] ++ [w_i3])) <> [].
-Proof.
-  assert (Hr : spec_run w_cfg ([w_i1] ++ [w_i3]) = mkS [mkHill 2%Z 1 [3/2]] []) by reflexivity.
-  rewrite Hr. unfold s_all. cbn [s_tab s_pend app]. repeat split.
-  - unfold in_grid, w_cfg, w_i3, w_var. cbn [c_use_grids c_geom0 c_vars i_x cbins gsizes map b_nx b_lower v_width andb].
-    unfold value_to_bin. cbn [nfloor ndiv nsub Rops].
-    rewrite (Zfloor_val _ (-20)%Z) by (simpl; lra). reflexivity.
-  - intros h [<-|[]] _. unfold K, w_cfg, w_i3, w_var. cbn [c_vars h_W h_c i_x Qexp v_sigma].
-    unfold mdiff. cbn [v_periodic]. unfold gauss.
-    destruct (Rlt_dec 23 ((-20 - 3 / 2) * (-20 - 3 / 2) / (1 * 1) + 0)) as [_|Hn]; [lra|exfalso; apply Hn; lra].
-  - intros h [].
-  - discriminate.
+  intros Hok HH. unfold final_state, spec_traj.
+  apply (traj_gen c Hok hist (c_geom0 c)); [apply cfg_geom0_ok; exact Hok| |exact HH|reflexivity].
+  apply init_inv; [apply cfg_geom0_ok; exact Hok|reflexivity].
 Qed.
